@@ -89,7 +89,8 @@ def expectedDefs : List (String × Expr) := [
   ("atom?", .lambda (.mk ⟨["x"], none⟩ [] [ite (ca "not" [ca "pair?" [sy "x"]]) (ca "not" [ca "null?" [sy "x"]]) (pr (.bool false))]) none),
   ("memq", .lambda (.mk ⟨["obj", "lst"], none⟩ [] [ite (ca "null?" [sy "lst"]) (thunk (pr (.bool false))) (ite (ca "eq?" [sy "obj", ca "car" [sy "lst"]]) (thunk (sy "lst")) (thunk (ca "memq" [sy "obj", ca "cdr" [sy "lst"]])))]) none),
   ("memv", .lambda (.mk ⟨["obj", "lst"], none⟩ [] [ite (ca "null?" [sy "lst"]) (thunk (pr (.bool false))) (ite (ca "eqv?" [sy "obj", ca "car" [sy "lst"]]) (thunk (sy "lst")) (thunk (ca "memv" [sy "obj", ca "cdr" [sy "lst"]])))]) none),
-  ("equal?", .lambda (.mk ⟨["x", "y"], none⟩ [] [ite (ca "pair?" [sy "x"]) (ite (ca "pair?" [sy "y"]) (ite (ca "equal?" [ca "car" [sy "x"], ca "car" [sy "y"]]) (ca "equal?" [ca "cdr" [sy "x"], ca "cdr" [sy "y"]]) (pr (.bool false))) (pr (.bool false))) (ite (ca "not" [ca "pair?" [sy "y"]]) (ca "eqv?" [sy "x", sy "y"]) (pr (.bool false)))]) none),
+  ("equal?", .lambda (.mk ⟨["x", "y"], none⟩ [] [ite (ca "pair?" [sy "x"]) (ite (ca "pair?" [sy "y"]) (ite (ca "equal?" [ca "car" [sy "x"], ca "car" [sy "y"]]) (ca "equal?" [ca "cdr" [sy "x"], ca "cdr" [sy "y"]]) (pr (.bool false))) (pr (.bool false))) (ite (ca "vector?" [sy "x"]) (ite (ca "vector?" [sy "y"]) (ite (ca "=" [ca "vector-length" [sy "x"], ca "vector-length" [sy "y"]]) (ca "vector-equal-from?" [sy "x", sy "y", pr (.int 0)]) (pr (.bool false))) (pr (.bool false))) (ite (ca "not" [ca "pair?" [sy "y"]]) (ca "eqv?" [sy "x", sy "y"]) (pr (.bool false))))]) none),
+  ("vector-equal-from?", .lambda (.mk ⟨["x", "y", "i"], none⟩ [] [ite (ca "=" [sy "i", ca "vector-length" [sy "x"]]) (pr (.bool true)) (ite (ca "equal?" [ca "vector-ref" [sy "x", sy "i"], ca "vector-ref" [sy "y", sy "i"]]) (ca "vector-equal-from?" [sy "x", sy "y", ca "+" [sy "i", pr (.int 1)]]) (pr (.bool false)))]) none),
   ("list?", .lambda (.mk ⟨["x"], none⟩ [] [ite (ca "eq?" [sy "x", q0]) (pr (.bool true)) (ite (ca "pair?" [sy "x"]) (ite (ca "list?" [ca "cdr" [sy "x"]]) (pr (.bool true)) (pr (.bool false))) (pr (.bool false)))]) none)]
 
 /-- the declarations of `base.sld` as the model's transformer produces them -/
@@ -273,12 +274,16 @@ theorem libProc_memv (b : Nat) : libProc "memv" b =
   libProc_of_index (i := 27) rfl b
 
 theorem libProc_equal_pred (b : Nat) : libProc "equal?" b =
-    .closure (.mk ⟨["x", "y"], none⟩ [] [ite (ca "pair?" [sy "x"]) (ite (ca "pair?" [sy "y"]) (ite (ca "equal?" [ca "car" [sy "x"], ca "car" [sy "y"]]) (ca "equal?" [ca "cdr" [sy "x"], ca "cdr" [sy "y"]]) (pr (.bool false))) (pr (.bool false))) (ite (ca "not" [ca "pair?" [sy "y"]]) (ca "eqv?" [sy "x", sy "y"]) (pr (.bool false)))]) b :=
+    .closure (.mk ⟨["x", "y"], none⟩ [] [ite (ca "pair?" [sy "x"]) (ite (ca "pair?" [sy "y"]) (ite (ca "equal?" [ca "car" [sy "x"], ca "car" [sy "y"]]) (ca "equal?" [ca "cdr" [sy "x"], ca "cdr" [sy "y"]]) (pr (.bool false))) (pr (.bool false))) (ite (ca "vector?" [sy "x"]) (ite (ca "vector?" [sy "y"]) (ite (ca "=" [ca "vector-length" [sy "x"], ca "vector-length" [sy "y"]]) (ca "vector-equal-from?" [sy "x", sy "y", pr (.int 0)]) (pr (.bool false))) (pr (.bool false))) (ite (ca "not" [ca "pair?" [sy "y"]]) (ca "eqv?" [sy "x", sy "y"]) (pr (.bool false))))]) b :=
   libProc_of_index (i := 28) rfl b
+
+theorem libProc_vector_equal_from (b : Nat) : libProc "vector-equal-from?" b =
+    .closure (.mk ⟨["x", "y", "i"], none⟩ [] [ite (ca "=" [sy "i", ca "vector-length" [sy "x"]]) (pr (.bool true)) (ite (ca "equal?" [ca "vector-ref" [sy "x", sy "i"], ca "vector-ref" [sy "y", sy "i"]]) (ca "vector-equal-from?" [sy "x", sy "y", ca "+" [sy "i", pr (.int 1)]]) (pr (.bool false)))]) b :=
+  libProc_of_index (i := 29) rfl b
 
 theorem libProc_list_pred (b : Nat) : libProc "list?" b =
     .closure (.mk ⟨["x"], none⟩ [] [ite (ca "eq?" [sy "x", q0]) (pr (.bool true)) (ite (ca "pair?" [sy "x"]) (ite (ca "list?" [ca "cdr" [sy "x"]]) (pr (.bool true)) (pr (.bool false))) (pr (.bool false)))]) b :=
-  libProc_of_index (i := 29) rfl b
+  libProc_of_index (i := 30) rfl b
 
 /- from here on `libProc name b` is only ever rewritten with the lemmas above: unfolding it would
 re-run the transformer -/
@@ -794,10 +799,11 @@ theorem Evals.call_loop {σ ρ f args l fv σ₁ vs σ₂ r σ'} (hf : Evals σ 
 
 /-! ## 5. running library code symbolically: store-polymorphic rules
 
-All the first-order procedures of the library are pure: what they compute does not depend on the
-store, and all they do to it is append frames. `PEval b ρ bs e r` says so for an expression of a
-procedure body: in EVERY store in which frame `ρ` sees the bindings `bs` in front of the library
-frame `b`, `e` evaluates to `r` (a value or an error) and the store is extended. -/
+All the first-order procedures of the library only READ the store — its vectors `V`, and only
+`equal?` does — and all they do to it is append frames. `PEval V b ρ bs e r` says so for an
+expression of a procedure body: in EVERY store whose vectors are `V` and in which frame `ρ` sees
+the bindings `bs` in front of the library frame `b`, `e` evaluates to `r` (a value or an error)
+and the store is extended. -/
 
 def EvalsE (σ : Store) (ρ : Nat) (e : Expr) (r : Except SErr Value) : Prop :=
   ∃ σ', Evals σ ρ e r σ' ∧ σ.Ext σ'
@@ -808,16 +814,17 @@ def AppliesE (σ : Store) (p : Value) (args : List Value) (env : Nat) (r : Excep
 def TailRunsE (σ : Store) (ρ : Nat) (e : Expr) (env : Nat) (r : Except SErr Value) : Prop :=
   ∃ σ', TailRuns σ ρ e env r σ' ∧ σ.Ext σ'
 
-def PEval (b ρ : Nat) (bs : List (String × Value)) (e : Expr) (r : Except SErr Value) : Prop :=
-  ∀ σ, Scope b ρ bs σ → EvalsE σ ρ e r
-def PArgs (b ρ : Nat) (bs : List (String × Value)) (es : List Expr) (r : Except SErr (List Value)) : Prop :=
-  ∀ σ, Scope b ρ bs σ → EvalsArgsE σ ρ es r
-def PTail (b ρ : Nat) (bs : List (String × Value)) (e : Expr) (r : Except SErr Value) : Prop :=
-  ∀ σ env, Scope b ρ bs σ → TailRunsE σ ρ e env r
+def PEval (V : Array VecCell) (b ρ : Nat) (bs : List (String × Value)) (e : Expr) (r : Except SErr Value) : Prop :=
+  ∀ σ, Scope b ρ bs σ → σ.vecs = V → EvalsE σ ρ e r
+def PArgs (V : Array VecCell) (b ρ : Nat) (bs : List (String × Value)) (es : List Expr)
+    (r : Except SErr (List Value)) : Prop :=
+  ∀ σ, Scope b ρ bs σ → σ.vecs = V → EvalsArgsE σ ρ es r
+def PTail (V : Array VecCell) (b ρ : Nat) (bs : List (String × Value)) (e : Expr) (r : Except SErr Value) : Prop :=
+  ∀ σ env, Scope b ρ bs σ → σ.vecs = V → TailRunsE σ ρ e env r
 /-- `p` applied to `args` yields `r` and only appends frames, in every store that has the
-library frame `b`, whoever the caller is -/
-def PApp (b : Nat) (p : Value) (args : List Value) (r : Except SErr Value) : Prop :=
-  ∀ σ env, LibFrame σ b → AppliesE σ p args env r
+library frame `b` and the vectors `V`, whoever the caller is -/
+def PApp (V : Array VecCell) (b : Nat) (p : Value) (args : List Value) (r : Except SErr Value) : Prop :=
+  ∀ σ env, LibFrame σ b → σ.vecs = V → AppliesE σ p args env r
 
 /-- the outcome of evaluating an operand list: the first error, else all the values -/
 def consR : Except SErr Value → Except SErr (List Value) → Except SErr (List Value)
@@ -826,33 +833,33 @@ def consR : Except SErr Value → Except SErr (List Value) → Except SErr (List
   | .ok v, .ok vs => .ok (v :: vs)
 
 section rules
-variable {b ρ : Nat} {bs : List (String × Value)}
+variable {V : Array VecCell} {b ρ : Nat} {bs : List (String × Value)}
 
-theorem PEval.congr {e r r'} (h : PEval b ρ bs e r) (hr : r = r') : PEval b ρ bs e r' := hr ▸ h
-theorem PArgs.congr {es r r'} (h : PArgs b ρ bs es r) (hr : r = r') : PArgs b ρ bs es r' := hr ▸ h
-theorem PTail.congr {e r r'} (h : PTail b ρ bs e r) (hr : r = r') : PTail b ρ bs e r' := hr ▸ h
-theorem PApp.congr {p args r r'} (h : PApp b p args r) (hr : r = r') : PApp b p args r' := hr ▸ h
+theorem PEval.congr {e r r'} (h : PEval V b ρ bs e r) (hr : r = r') : PEval V b ρ bs e r' := hr ▸ h
+theorem PArgs.congr {es r r'} (h : PArgs V b ρ bs es r) (hr : r = r') : PArgs V b ρ bs es r' := hr ▸ h
+theorem PTail.congr {e r r'} (h : PTail V b ρ bs e r) (hr : r = r') : PTail V b ρ bs e r' := hr ▸ h
+theorem PApp.congr {p args r r'} (h : PApp V b p args r) (hr : r = r') : PApp V b p args r' := hr ▸ h
 
-theorem PEval.var {y l v} (hy : bs.lookup y = some v) : PEval b ρ bs (.sym y l) (.ok v) :=
-  fun σ h => ⟨σ, Evals.sym (h.var hy), .refl σ⟩
+theorem PEval.var {y l v} (hy : bs.lookup y = some v) : PEval V b ρ bs (.sym y l) (.ok v) :=
+  fun σ h _ => ⟨σ, Evals.sym (h.var hy), .refl σ⟩
 
-theorem PEval.prim {p l v} (hp : evalPrim p = .ok v) : PEval b ρ bs (.prim p l) (.ok v) :=
-  fun σ _ => ⟨σ, Evals.prim hp, .refl σ⟩
+theorem PEval.prim {p l v} (hp : evalPrim p = .ok v) : PEval V b ρ bs (.prim p l) (.ok v) :=
+  fun σ _ _ => ⟨σ, Evals.prim hp, .refl σ⟩
 
 /-- `'()` -/
-theorem PEval.nil {l l'} : PEval b ρ bs (.quote (.nil l') l) (.ok .nil) :=
-  fun σ _ => ⟨σ, Evals.quote (by rw [readLiteral]) (by simp), .refl σ⟩
+theorem PEval.nil {l l'} : PEval V b ρ bs (.quote (.nil l') l) (.ok .nil) :=
+  fun σ _ _ => ⟨σ, Evals.quote (by rw [readLiteral]) (by simp), .refl σ⟩
 
-theorem PArgs.nil : PArgs b ρ bs [] (.ok []) := fun σ _ => ⟨σ, EvalsArgs.nil, .refl σ⟩
+theorem PArgs.nil : PArgs V b ρ bs [] (.ok []) := fun σ _ _ => ⟨σ, EvalsArgs.nil, .refl σ⟩
 
-theorem PArgs.cons {a as ra ras} (ha : PEval b ρ bs a ra) (has : PArgs b ρ bs as ras) :
-    PArgs b ρ bs (a :: as) (consR ra ras) := by
-  intro σ h
-  obtain ⟨σ₁, h₁, e₁⟩ := ha σ h
+theorem PArgs.cons {a as ra ras} (ha : PEval V b ρ bs a ra) (has : PArgs V b ρ bs as ras) :
+    PArgs V b ρ bs (a :: as) (consR ra ras) := by
+  intro σ h hv
+  obtain ⟨σ₁, h₁, e₁⟩ := ha σ h hv
   cases ra with
   | error er => exact ⟨σ₁, EvalsArgs.cons_err h₁, e₁⟩
   | ok v =>
-    obtain ⟨σ₂, h₂, e₂⟩ := has σ₁ (h.ext e₁.framesExt)
+    obtain ⟨σ₂, h₂, e₂⟩ := has σ₁ (h.ext e₁.framesExt) (e₁.vecs.trans hv)
     cases ras with
     | error er => exact ⟨σ₂, EvalsArgs.cons_tail_err h₁ h₂, e₁.trans e₂⟩
     | ok vs => exact ⟨σ₂, EvalsArgs.cons h₁ h₂, e₁.trans e₂⟩
@@ -860,83 +867,85 @@ theorem PArgs.cons {a as ra ras} (ha : PEval b ρ bs a ra) (has : PArgs b ρ bs 
 /-- a call, not in tail position, of the procedure a name is bound to -/
 theorem PEval.call {f l args l' fv ras} {k : List Value → Except SErr Value}
     (hf : ∀ σ, Scope b ρ bs σ → σ.lookup ρ f = some fv) (hp : (procArity fv).isSome)
-    (ha : PArgs b ρ bs args ras) (hk : ∀ vs, ras = .ok vs → PApp b fv vs (k vs)) :
-    PEval b ρ bs (.call (.sym f l) args l') (ras.bind k) := by
-  intro σ h
-  obtain ⟨σ₂, h₂, e₂⟩ := ha σ h
+    (ha : PArgs V b ρ bs args ras) (hk : ∀ vs, ras = .ok vs → PApp V b fv vs (k vs)) :
+    PEval V b ρ bs (.call (.sym f l) args l') (ras.bind k) := by
+  intro σ h hv
+  obtain ⟨σ₂, h₂, e₂⟩ := ha σ h hv
   cases ras with
   | error er => exact ⟨σ₂, Evals.call_arg_err (Evals.sym (hf σ h)) h₂ hp, e₂⟩
   | ok vs =>
-    obtain ⟨σ₃, h₃, e₃⟩ := hk vs rfl (enter σ₂) ρ ((h.ext e₂.framesExt).enter).lib
+    obtain ⟨σ₃, h₃, e₃⟩ := hk vs rfl (enter σ₂) ρ ((h.ext e₂.framesExt).enter).lib (e₂.vecs.trans hv)
     exact ⟨leave σ₃, Evals.call_loop (Evals.sym (hf σ h)) h₂ hp h₃, e₂.trans (.of_activation e₃)⟩
 
 /-- the same call in tail position: it is the next iteration of the activation's loop -/
 theorem PTail.call {f l args l' fv ras} {k : List Value → Except SErr Value}
     (hf : ∀ σ, Scope b ρ bs σ → σ.lookup ρ f = some fv) (hp : (procArity fv).isSome)
-    (ha : PArgs b ρ bs args ras) (hk : ∀ vs, ras = .ok vs → PApp b fv vs (k vs)) :
-    PTail b ρ bs (.call (.sym f l) args l') (ras.bind k) := by
-  intro σ env h
-  obtain ⟨σ₂, h₂, e₂⟩ := ha σ h
+    (ha : PArgs V b ρ bs args ras) (hk : ∀ vs, ras = .ok vs → PApp V b fv vs (k vs)) :
+    PTail V b ρ bs (.call (.sym f l) args l') (ras.bind k) := by
+  intro σ env h hv
+  obtain ⟨σ₂, h₂, e₂⟩ := ha σ h hv
   cases ras with
   | error er =>
     exact ⟨σ₂, TailRuns.call (.inr ⟨fv, σ, Evals.sym (hf σ h), .inl ⟨er, h₂, rfl⟩⟩), e₂⟩
   | ok vs =>
-    obtain ⟨σ₃, h₃, e₃⟩ := hk vs rfl σ₂ env (h.ext e₂.framesExt).lib
+    obtain ⟨σ₃, h₃, e₃⟩ := hk vs rfl σ₂ env (h.ext e₂.framesExt).lib (e₂.vecs.trans hv)
     exact ⟨σ₃, TailRuns.call (.inr ⟨fv, σ, Evals.sym (hf σ h), .inr ⟨vs, σ₂, h₂, .inr ⟨hp, h₃⟩⟩⟩), e₂.trans e₃⟩
 
 theorem PTail.value {e r} (hcall : ∀ f as l, e ≠ .call f as l) (hcond : ∀ t c a l, e ≠ .cond t c a l)
-    (he : PEval b ρ bs e r) : PTail b ρ bs e r := by
-  intro σ env h
-  obtain ⟨σ₁, h₁, e₁⟩ := he σ h
+    (he : PEval V b ρ bs e r) : PTail V b ρ bs e r := by
+  intro σ env h hv
+  obtain ⟨σ₁, h₁, e₁⟩ := he σ h hv
   cases r with
   | error er => exact ⟨σ₁, TailRuns.err hcall hcond h₁, e₁⟩
   | ok v => exact ⟨σ₁, TailRuns.value hcall hcond h₁, e₁⟩
 
-theorem PTail.cond {t c a l rt r} (ht : PEval b ρ bs t rt)
-    (hc : ∀ tv, rt = .ok tv → tv.truthy = true → PTail b ρ bs c r)
-    (ha : ∀ tv, rt = .ok tv → tv.truthy = false → PTail b ρ bs a r)
-    (he : ∀ er, rt = .error er → r = .error er) : PTail b ρ bs (.cond t c (some a) l) r := by
-  intro σ env h
-  obtain ⟨σ₁, h₁, e₁⟩ := ht σ h
+theorem PTail.cond {t c a l rt r} (ht : PEval V b ρ bs t rt)
+    (hc : ∀ tv, rt = .ok tv → tv.truthy = true → PTail V b ρ bs c r)
+    (ha : ∀ tv, rt = .ok tv → tv.truthy = false → PTail V b ρ bs a r)
+    (he : ∀ er, rt = .error er → r = .error er) : PTail V b ρ bs (.cond t c (some a) l) r := by
+  intro σ env h hv
+  obtain ⟨σ₁, h₁, e₁⟩ := ht σ h hv
   cases rt with
   | error er => exact ⟨σ₁, he er rfl ▸ TailRuns.cond_err h₁, e₁⟩
   | ok tv =>
     cases htv : tv.truthy with
     | true =>
-      obtain ⟨σ₂, h₂, e₂⟩ := hc tv rfl htv σ₁ env (h.ext e₁.framesExt)
+      obtain ⟨σ₂, h₂, e₂⟩ := hc tv rfl htv σ₁ env (h.ext e₁.framesExt) (e₁.vecs.trans hv)
       exact ⟨σ₂, TailRuns.cond_true h₁ htv h₂, e₁.trans e₂⟩
     | false =>
-      obtain ⟨σ₂, h₂, e₂⟩ := ha tv rfl htv σ₁ env (h.ext e₁.framesExt)
+      obtain ⟨σ₂, h₂, e₂⟩ := ha tv rfl htv σ₁ env (h.ext e₁.framesExt) (e₁.vecs.trans hv)
       exact ⟨σ₂, TailRuns.cond_false h₁ htv h₂, e₁.trans e₂⟩
 
 /-- a `cond` clause body `((lambda () e))` in tail position runs `e` in a frame that sees the same
 bindings -/
-theorem PTail.thunk {e r} (h : ∀ ρ', PTail b ρ' bs e r) : PTail b ρ bs (thunk e) r := by
-  intro σ env hs
-  obtain ⟨σ₁, h₁, e₁⟩ := h σ.frames.size _ env hs.of_thunk
+theorem PTail.thunk {e r} (h : ∀ ρ', PTail V b ρ' bs e r) : PTail V b ρ bs (thunk e) r := by
+  intro σ env hs hv
+  obtain ⟨σ₁, h₁, e₁⟩ := h σ.frames.size _ env hs.of_thunk ((callFrame_ext σ ρ _ _).vecs.trans hv)
   exact ⟨σ₁, TailRuns.thunk h₁, (callFrame_ext σ ρ _ _).trans e₁⟩
 
 /-- a procedure of the library: its body, run as a tail expression in the frame of the call -/
 theorem PApp.closure {formals e args r}
     (ha : arityOk formals.fixed.length formals.rest.isSome args.length = true)
-    (h : ∀ ρ, PTail b ρ (paramDefs formals args) e r) :
-    PApp b (.closure (.mk formals [] [e]) b) args r := by
-  intro σ env hl
+    (h : ∀ ρ, PTail V b ρ (paramDefs formals args) e r) :
+    PApp V b (.closure (.mk formals [] [e]) b) args r := by
+  intro σ env hl hv
   obtain ⟨σ₁, h₁, e₁⟩ := h σ.frames.size _ env (Scope.of_call hl formals args)
+    ((callFrame_ext σ b _ _).vecs.trans hv)
   exact ⟨σ₁, Applies.closure_simple ha h₁, (callFrame_ext σ b _ _).trans e₁⟩
 
-/-- a native procedure that does not touch the store -/
+/-- a native procedure that does not change the store (it may read the vectors) -/
 theorem PApp.builtin {bi args r} (hb : bi ≠ .apply)
-    (ha : arityOk bi.arity.1 bi.arity.2 args.length = true) (h : ∀ σ, Prim.applyPure σ bi args = (r, σ))
-    (hr : NotFuel r) : PApp b (.builtin bi) args r :=
-  fun σ _ _ => ⟨σ, Applies.builtin hb ha (h σ) hr, .refl σ⟩
+    (ha : arityOk bi.arity.1 bi.arity.2 args.length = true)
+    (h : ∀ σ, σ.vecs = V → Prim.applyPure σ bi args = (r, σ))
+    (hr : NotFuel r) : PApp V b (.builtin bi) args r :=
+  fun σ _ _ hv => ⟨σ, Applies.builtin hb ha (h σ hv) hr, .refl σ⟩
 
 /-! ### one and two operands -/
 
 theorem PEval.call1 {f l a l' fv ra} {k : Value → Except SErr Value}
     (hf : ∀ σ, Scope b ρ bs σ → σ.lookup ρ f = some fv) (hp : (procArity fv).isSome)
-    (ha : PEval b ρ bs a ra) (hk : ∀ v, ra = .ok v → PApp b fv [v] (k v)) :
-    PEval b ρ bs (.call (.sym f l) [a] l') (ra.bind k) := by
+    (ha : PEval V b ρ bs a ra) (hk : ∀ v, ra = .ok v → PApp V b fv [v] (k v)) :
+    PEval V b ρ bs (.call (.sym f l) [a] l') (ra.bind k) := by
   refine (PEval.call (k := fun vs => match vs with | [v] => k v | _ => .error (.other, none)) hf hp
     (PArgs.cons ha PArgs.nil) ?_).congr ?_
   · intro vs hvs
@@ -947,9 +956,9 @@ theorem PEval.call1 {f l a l' fv ra} {k : Value → Except SErr Value}
 
 theorem PEval.call2 {f l a₁ a₂ l' fv r₁ r₂} {k : Value → Value → Except SErr Value}
     (hf : ∀ σ, Scope b ρ bs σ → σ.lookup ρ f = some fv) (hp : (procArity fv).isSome)
-    (h₁ : PEval b ρ bs a₁ r₁) (h₂ : PEval b ρ bs a₂ r₂)
-    (hk : ∀ v₁ v₂, r₁ = .ok v₁ → r₂ = .ok v₂ → PApp b fv [v₁, v₂] (k v₁ v₂)) :
-    PEval b ρ bs (.call (.sym f l) [a₁, a₂] l') (r₁.bind fun v₁ => r₂.bind fun v₂ => k v₁ v₂) := by
+    (h₁ : PEval V b ρ bs a₁ r₁) (h₂ : PEval V b ρ bs a₂ r₂)
+    (hk : ∀ v₁ v₂, r₁ = .ok v₁ → r₂ = .ok v₂ → PApp V b fv [v₁, v₂] (k v₁ v₂)) :
+    PEval V b ρ bs (.call (.sym f l) [a₁, a₂] l') (r₁.bind fun v₁ => r₂.bind fun v₂ => k v₁ v₂) := by
   refine (PEval.call (k := fun vs => match vs with | [v₁, v₂] => k v₁ v₂ | _ => .error (.other, none)) hf hp
     (PArgs.cons h₁ (PArgs.cons h₂ PArgs.nil)) ?_).congr ?_
   · intro vs hvs
@@ -963,8 +972,8 @@ theorem PEval.call2 {f l a₁ a₂ l' fv r₁ r₂} {k : Value → Value → Exc
 
 theorem PTail.call1 {f l a l' fv ra} {k : Value → Except SErr Value}
     (hf : ∀ σ, Scope b ρ bs σ → σ.lookup ρ f = some fv) (hp : (procArity fv).isSome)
-    (ha : PEval b ρ bs a ra) (hk : ∀ v, ra = .ok v → PApp b fv [v] (k v)) :
-    PTail b ρ bs (.call (.sym f l) [a] l') (ra.bind k) := by
+    (ha : PEval V b ρ bs a ra) (hk : ∀ v, ra = .ok v → PApp V b fv [v] (k v)) :
+    PTail V b ρ bs (.call (.sym f l) [a] l') (ra.bind k) := by
   refine (PTail.call (k := fun vs => match vs with | [v] => k v | _ => .error (.other, none)) hf hp
     (PArgs.cons ha PArgs.nil) ?_).congr ?_
   · intro vs hvs
@@ -975,9 +984,9 @@ theorem PTail.call1 {f l a l' fv ra} {k : Value → Except SErr Value}
 
 theorem PTail.call2 {f l a₁ a₂ l' fv r₁ r₂} {k : Value → Value → Except SErr Value}
     (hf : ∀ σ, Scope b ρ bs σ → σ.lookup ρ f = some fv) (hp : (procArity fv).isSome)
-    (h₁ : PEval b ρ bs a₁ r₁) (h₂ : PEval b ρ bs a₂ r₂)
-    (hk : ∀ v₁ v₂, r₁ = .ok v₁ → r₂ = .ok v₂ → PApp b fv [v₁, v₂] (k v₁ v₂)) :
-    PTail b ρ bs (.call (.sym f l) [a₁, a₂] l') (r₁.bind fun v₁ => r₂.bind fun v₂ => k v₁ v₂) := by
+    (h₁ : PEval V b ρ bs a₁ r₁) (h₂ : PEval V b ρ bs a₂ r₂)
+    (hk : ∀ v₁ v₂, r₁ = .ok v₁ → r₂ = .ok v₂ → PApp V b fv [v₁, v₂] (k v₁ v₂)) :
+    PTail V b ρ bs (.call (.sym f l) [a₁, a₂] l') (r₁.bind fun v₁ => r₂.bind fun v₂ => k v₁ v₂) := by
   refine (PTail.call (k := fun vs => match vs with | [v₁, v₂] => k v₁ v₂ | _ => .error (.other, none)) hf hp
     (PArgs.cons h₁ (PArgs.cons h₂ PArgs.nil)) ?_).congr ?_
   · intro vs hvs
@@ -1015,21 +1024,21 @@ theorem applyPure_not (σ : Store) (v : Value) : Prim.applyPure σ .not [v] = (.
   | _ => rfl
 
 section
-variable {b : Nat}
-theorem PApp.car {v} : PApp b (.builtin .car) [v] (carS v) :=
-  PApp.builtin (by decide) (by rfl) (fun σ => applyPure_car σ v) (notFuel_carS v)
-theorem PApp.cdr {v} : PApp b (.builtin .cdr) [v] (cdrS v) :=
-  PApp.builtin (by decide) (by rfl) (fun σ => applyPure_cdr σ v) (notFuel_cdrS v)
-theorem PApp.cons {a d} : PApp b (.builtin .cons) [a, d] (.ok (.pair a d)) :=
-  PApp.builtin (by decide) (by rfl) (fun σ => applyPure_cons σ a d) (by simp)
-theorem PApp.isPair {v} : PApp b (.builtin .isPair) [v] (.ok (.bool (isPair v))) :=
-  PApp.builtin (by decide) (by rfl) (fun σ => applyPure_isPair σ v) (by simp)
-theorem PApp.eqv {a c} : PApp b (.builtin .eqv) [a, c] (.ok (.bool (Prim.eqv a c))) :=
-  PApp.builtin (by decide) (by rfl) (fun σ => applyPure_eqv σ a c) (by simp)
-theorem PApp.eq {a c} : PApp b (.builtin .eq) [a, c] (.ok (.bool (Prim.eqv a c))) :=
-  PApp.builtin (by decide) (by rfl) (fun σ => applyPure_eq σ a c) (by simp)
-theorem PApp.not {v} : PApp b (.builtin .not) [v] (.ok (.bool (!v.truthy))) :=
-  PApp.builtin (by decide) (by rfl) (fun σ => applyPure_not σ v) (by simp)
+variable {V : Array VecCell} {b : Nat}
+theorem PApp.car {v} : PApp V b (.builtin .car) [v] (carS v) :=
+  PApp.builtin (by decide) (by rfl) (fun σ _ => applyPure_car σ v) (notFuel_carS v)
+theorem PApp.cdr {v} : PApp V b (.builtin .cdr) [v] (cdrS v) :=
+  PApp.builtin (by decide) (by rfl) (fun σ _ => applyPure_cdr σ v) (notFuel_cdrS v)
+theorem PApp.cons {a d} : PApp V b (.builtin .cons) [a, d] (.ok (.pair a d)) :=
+  PApp.builtin (by decide) (by rfl) (fun σ _ => applyPure_cons σ a d) (by simp)
+theorem PApp.isPair {v} : PApp V b (.builtin .isPair) [v] (.ok (.bool (isPair v))) :=
+  PApp.builtin (by decide) (by rfl) (fun σ _ => applyPure_isPair σ v) (by simp)
+theorem PApp.eqv {a c} : PApp V b (.builtin .eqv) [a, c] (.ok (.bool (Prim.eqv a c))) :=
+  PApp.builtin (by decide) (by rfl) (fun σ _ => applyPure_eqv σ a c) (by simp)
+theorem PApp.eq {a c} : PApp V b (.builtin .eq) [a, c] (.ok (.bool (Prim.eqv a c))) :=
+  PApp.builtin (by decide) (by rfl) (fun σ _ => applyPure_eq σ a c) (by simp)
+theorem PApp.not {v} : PApp V b (.builtin .not) [v] (.ok (.bool (!v.truthy))) :=
+  PApp.builtin (by decide) (by rfl) (fun σ _ => applyPure_not σ v) (by simp)
 
 variable {ρ : Nat} {bs : List (String × Value)}
 /-- the operator of a call is a native name not shadowed by a parameter -/
@@ -1068,16 +1077,52 @@ theorem applyPure_sub_int (σ : Store) (a c : Int) (h : fitsI32 (a - c) = true) 
   rfl
 
 section
-variable {b : Nat}
+variable {V : Array VecCell} {b : Nat}
 theorem PApp.numEq_int {a c : Int} :
-    PApp b (.builtin .numEq) [.num (.int a), .num (.int c)] (.ok (.bool (a == c))) :=
-  PApp.builtin (by decide) (by rfl) (fun σ => applyPure_numEq_int σ a c) (by simp)
+    PApp V b (.builtin .numEq) [.num (.int a), .num (.int c)] (.ok (.bool (a == c))) :=
+  PApp.builtin (by decide) (by rfl) (fun σ _ => applyPure_numEq_int σ a c) (by simp)
 theorem PApp.gt_int {a c : Int} :
-    PApp b (.builtin .gt) [.num (.int a), .num (.int c)] (.ok (.bool (decide (a > c)))) :=
-  PApp.builtin (by decide) (by rfl) (fun σ => applyPure_gt_int σ a c) (by simp)
+    PApp V b (.builtin .gt) [.num (.int a), .num (.int c)] (.ok (.bool (decide (a > c)))) :=
+  PApp.builtin (by decide) (by rfl) (fun σ _ => applyPure_gt_int σ a c) (by simp)
 theorem PApp.sub_int {a c : Int} (h : fitsI32 (a - c) = true) :
-    PApp b (.builtin .sub) [.num (.int a), .num (.int c)] (.ok (.num (.int (a - c)))) :=
-  PApp.builtin (by decide) (by rfl) (fun σ => applyPure_sub_int σ a c h) (by simp)
+    PApp V b (.builtin .sub) [.num (.int a), .num (.int c)] (.ok (.num (.int (a - c)))) :=
+  PApp.builtin (by decide) (by rfl) (fun σ _ => applyPure_sub_int σ a c h) (by simp)
+end
+
+/-! ### the vector natives `equal?` reads the store with -/
+
+theorem applyPure_isVector (σ : Store) (v : Value) : Prim.applyPure σ .isVector [v] = (.ok (.bool (isVec v)), σ) := by
+  cases v <;> rfl
+
+theorem applyPure_vectorLength (σ : Store) {id : Nat} {cell : VecCell} (h : σ.vecs[id]? = some cell) :
+    Prim.applyPure σ .vectorLength [.vec id] = (.ok (.num (.int cell.items.length)), σ) := by
+  simp only [Prim.applyPure, h]; rfl
+
+theorem applyPure_vectorRef (σ : Store) {id : Nat} {cell : VecCell} (h : σ.vecs[id]? = some cell) {k : Nat}
+    {x : Value} (hx : cell.items[k]? = some x) :
+    Prim.applyPure σ .vectorRef [.vec id, .num (.int k)] = (.ok x, σ) := by
+  have : ¬ ((k : Int) < 0) := by omega
+  simp only [Prim.applyPure, h, this, if_false, Int.toNat_natCast, hx]; rfl
+
+theorem applyPure_add_int (σ : Store) (a c : Int) (ha : fitsI32 a = true) (h : fitsI32 (a + c) = true) :
+    Prim.applyPure σ .add [.num (.int a), .num (.int c)] = (.ok (.num (.int (a + c))), σ) := by
+  simp only [Prim.applyPure, Prim.foldNum, List.foldlM, Prim.expectNumber, Num.add, Num.upcast, bind, Except.bind,
+    Int.zero_add, exactRatio_one ha, exactRatio_one h, pure, Except.pure, Prim.lift]
+  rfl
+
+section
+variable {V : Array VecCell} {b : Nat}
+theorem PApp.isVector {v} : PApp V b (.builtin .isVector) [v] (.ok (.bool (isVec v))) :=
+  PApp.builtin (by decide) (by rfl) (fun σ _ => applyPure_isVector σ v) (by simp)
+theorem PApp.vectorLength {id : Nat} {cell : VecCell} (h : V[id]? = some cell) :
+    PApp V b (.builtin .vectorLength) [.vec id] (.ok (.num (.int cell.items.length))) :=
+  PApp.builtin (by decide) (by rfl) (fun σ hv => applyPure_vectorLength σ (hv ▸ h)) (by simp)
+theorem PApp.vectorRef {id : Nat} {cell : VecCell} (h : V[id]? = some cell) {k : Nat} {x : Value}
+    (hx : cell.items[k]? = some x) : PApp V b (.builtin .vectorRef) [.vec id, .num (.int k)] (.ok x) :=
+  PApp.builtin (by decide) (by rfl) (fun σ hv => applyPure_vectorRef σ (hv ▸ h) hx) (by simp)
+theorem PApp.add_int {a c : Int} (ha : fitsI32 a = true) (h : fitsI32 (a + c) = true) :
+    PApp V b (.builtin .add) [.num (.int a), .num (.int c)] (.ok (.num (.int (a + c)))) :=
+  PApp.builtin (by decide) (by rfl) (fun σ _ => applyPure_add_int σ a c ha h) (by simp)
 end
 
 theorem eqv_nil (x : Value) : Prim.eqv x .nil = isNil x := by cases x <;> rfl
@@ -1086,76 +1131,76 @@ theorem eqv_nil_left (x : Value) : Prim.eqv .nil x = isNil x := by cases x <;> r
 /-! ## 7. the procedures, one by one (`PApp` form; property C11 restates them) -/
 
 section procs
-variable (b : Nat)
+variable {V : Array VecCell} (b : Nat)
 
-theorem papp_caar (x : Value) : PApp b (libProc "caar" b) [x] (caarS x) := by
+theorem papp_caar (x : Value) : PApp V b (libProc "caar" b) [x] (caarS x) := by
   rw [libProc_caar]
   refine PApp.closure (by rfl) fun ρ => ?_
   exact PTail.call1 (lkB .car) (by rfl) (PEval.call1 (lkB .car) (by rfl) (PEval.var (by rfl)) fun _ _ => PApp.car) fun _ _ => PApp.car
 
-theorem papp_cadr (x : Value) : PApp b (libProc "cadr" b) [x] (cadrS x) := by
+theorem papp_cadr (x : Value) : PApp V b (libProc "cadr" b) [x] (cadrS x) := by
   rw [libProc_cadr]
   refine PApp.closure (by rfl) fun ρ => ?_
   exact PTail.call1 (lkB .car) (by rfl) (PEval.call1 (lkB .cdr) (by rfl) (PEval.var (by rfl)) fun _ _ => PApp.cdr) fun _ _ => PApp.car
 
-theorem papp_cdar (x : Value) : PApp b (libProc "cdar" b) [x] (cdarS x) := by
+theorem papp_cdar (x : Value) : PApp V b (libProc "cdar" b) [x] (cdarS x) := by
   rw [libProc_cdar]
   refine PApp.closure (by rfl) fun ρ => ?_
   exact PTail.call1 (lkB .cdr) (by rfl) (PEval.call1 (lkB .car) (by rfl) (PEval.var (by rfl)) fun _ _ => PApp.car) fun _ _ => PApp.cdr
 
-theorem papp_cddr (x : Value) : PApp b (libProc "cddr" b) [x] (cddrS x) := by
+theorem papp_cddr (x : Value) : PApp V b (libProc "cddr" b) [x] (cddrS x) := by
   rw [libProc_cddr]
   refine PApp.closure (by rfl) fun ρ => ?_
   exact PTail.call1 (lkB .cdr) (by rfl) (PEval.call1 (lkB .cdr) (by rfl) (PEval.var (by rfl)) fun _ _ => PApp.cdr) fun _ _ => PApp.cdr
 
-theorem papp_caaar (x : Value) : PApp b (libProc "caaar" b) [x] (caaarS x) := by
+theorem papp_caaar (x : Value) : PApp V b (libProc "caaar" b) [x] (caaarS x) := by
   rw [libProc_caaar]
   refine PApp.closure (by rfl) fun ρ => ?_
   exact PTail.call1 (lkB .car) (by rfl) (PEval.call1 (lkB .car) (by rfl) (PEval.call1 (lkB .car) (by rfl) (PEval.var (by rfl)) fun _ _ => PApp.car) fun _ _ => PApp.car) fun _ _ => PApp.car
 
-theorem papp_caadr (x : Value) : PApp b (libProc "caadr" b) [x] (caadrS x) := by
+theorem papp_caadr (x : Value) : PApp V b (libProc "caadr" b) [x] (caadrS x) := by
   rw [libProc_caadr]
   refine PApp.closure (by rfl) fun ρ => ?_
   exact PTail.call1 (lkB .car) (by rfl) (PEval.call1 (lkB .car) (by rfl) (PEval.call1 (lkB .cdr) (by rfl) (PEval.var (by rfl)) fun _ _ => PApp.cdr) fun _ _ => PApp.car) fun _ _ => PApp.car
 
-theorem papp_cadar (x : Value) : PApp b (libProc "cadar" b) [x] (cadarS x) := by
+theorem papp_cadar (x : Value) : PApp V b (libProc "cadar" b) [x] (cadarS x) := by
   rw [libProc_cadar]
   refine PApp.closure (by rfl) fun ρ => ?_
   exact PTail.call1 (lkB .car) (by rfl) (PEval.call1 (lkB .cdr) (by rfl) (PEval.call1 (lkB .car) (by rfl) (PEval.var (by rfl)) fun _ _ => PApp.car) fun _ _ => PApp.cdr) fun _ _ => PApp.car
 
-theorem papp_caddr (x : Value) : PApp b (libProc "caddr" b) [x] (caddrS x) := by
+theorem papp_caddr (x : Value) : PApp V b (libProc "caddr" b) [x] (caddrS x) := by
   rw [libProc_caddr]
   refine PApp.closure (by rfl) fun ρ => ?_
   exact PTail.call1 (lkB .car) (by rfl) (PEval.call1 (lkB .cdr) (by rfl) (PEval.call1 (lkB .cdr) (by rfl) (PEval.var (by rfl)) fun _ _ => PApp.cdr) fun _ _ => PApp.cdr) fun _ _ => PApp.car
 
-theorem papp_cdaar (x : Value) : PApp b (libProc "cdaar" b) [x] (cdaarS x) := by
+theorem papp_cdaar (x : Value) : PApp V b (libProc "cdaar" b) [x] (cdaarS x) := by
   rw [libProc_cdaar]
   refine PApp.closure (by rfl) fun ρ => ?_
   exact PTail.call1 (lkB .cdr) (by rfl) (PEval.call1 (lkB .car) (by rfl) (PEval.call1 (lkB .car) (by rfl) (PEval.var (by rfl)) fun _ _ => PApp.car) fun _ _ => PApp.car) fun _ _ => PApp.cdr
 
-theorem papp_cdadr (x : Value) : PApp b (libProc "cdadr" b) [x] (cdadrS x) := by
+theorem papp_cdadr (x : Value) : PApp V b (libProc "cdadr" b) [x] (cdadrS x) := by
   rw [libProc_cdadr]
   refine PApp.closure (by rfl) fun ρ => ?_
   exact PTail.call1 (lkB .cdr) (by rfl) (PEval.call1 (lkB .car) (by rfl) (PEval.call1 (lkB .cdr) (by rfl) (PEval.var (by rfl)) fun _ _ => PApp.cdr) fun _ _ => PApp.car) fun _ _ => PApp.cdr
 
-theorem papp_cddar (x : Value) : PApp b (libProc "cddar" b) [x] (cddarS x) := by
+theorem papp_cddar (x : Value) : PApp V b (libProc "cddar" b) [x] (cddarS x) := by
   rw [libProc_cddar]
   refine PApp.closure (by rfl) fun ρ => ?_
   exact PTail.call1 (lkB .cdr) (by rfl) (PEval.call1 (lkB .cdr) (by rfl) (PEval.call1 (lkB .car) (by rfl) (PEval.var (by rfl)) fun _ _ => PApp.car) fun _ _ => PApp.cdr) fun _ _ => PApp.cdr
 
-theorem papp_cdddr (x : Value) : PApp b (libProc "cdddr" b) [x] (cdddrS x) := by
+theorem papp_cdddr (x : Value) : PApp V b (libProc "cdddr" b) [x] (cdddrS x) := by
   rw [libProc_cdddr]
   refine PApp.closure (by rfl) fun ρ => ?_
   exact PTail.call1 (lkB .cdr) (by rfl) (PEval.call1 (lkB .cdr) (by rfl) (PEval.call1 (lkB .cdr) (by rfl) (PEval.var (by rfl)) fun _ _ => PApp.cdr) fun _ _ => PApp.cdr) fun _ _ => PApp.cdr
 
 /-- `(define (list . x) x)` -/
-theorem papp_list (args : List Value) : PApp b (libProc "list" b) args (.ok (Value.ofList args)) := by
+theorem papp_list (args : List Value) : PApp V b (libProc "list" b) args (.ok (Value.ofList args)) := by
   rw [libProc_list]
   refine PApp.closure (by simp [arityOk]) fun ρ => ?_
   exact PTail.value (by intros; simp) (by intros; simp) (PEval.var (by rfl))
 
 /-- `(define (null? x) (eqv? x '()))` -/
-theorem papp_null (x : Value) : PApp b (libProc "null?" b) [x] (.ok (.bool (isNil x))) := by
+theorem papp_null (x : Value) : PApp V b (libProc "null?" b) [x] (.ok (.bool (isNil x))) := by
   rw [libProc_null_pred]
   refine PApp.closure (by rfl) fun ρ => ?_
   refine (PTail.call2 (k := fun v₁ v₂ => .ok (.bool (Prim.eqv v₁ v₂))) (lkB .eqv) (by rfl)
@@ -1167,7 +1212,7 @@ theorem fits_of_le {k : Nat} (h : (k : Int) ≤ 2147483647) : fitsI32 ((k : Int)
 
 /-- `(list-tail x k)`, by induction on the index -/
 theorem papp_list_tail (k : Nat) : ∀ (x : Value), (k : Int) ≤ 2147483647 →
-    PApp b (libProc "list-tail" b) [x, .num (.int k)] (listTailS x k) := by
+    PApp V b (libProc "list-tail" b) [x, .num (.int k)] (listTailS x k) := by
   induction k with
   | zero =>
     intro x _
@@ -1203,7 +1248,7 @@ theorem papp_list_tail (k : Nat) : ∀ (x : Value), (k : Int) ≤ 2147483647 →
 
 /-- `(list-ref x k)` = `(car (list-tail x k))` -/
 theorem papp_list_ref (k : Nat) (x : Value) (hk : (k : Int) ≤ 2147483647) :
-    PApp b (libProc "list-ref" b) [x, .num (.int k)] (listRefS x k) := by
+    PApp V b (libProc "list-ref" b) [x, .num (.int k)] (listRefS x k) := by
   rw [libProc_list_ref]
   refine PApp.closure (by rfl) fun ρ => ?_
   exact PTail.call1 (lkB .car) (by rfl)
@@ -1216,15 +1261,15 @@ end procs
 @[simp] theorem truthy_bool (c : Bool) : (Value.bool c).truthy = c := by cases c <;> rfl
 
 section procs2
-variable (b : Nat)
+variable {V : Array VecCell} (b : Nat)
 
 /-- `(last-pair x)` -/
-theorem papp_last_pair (x : Value) : PApp b (libProc "last-pair" b) [x] (lastPairS x) := by
-  have test : ∀ (x : Value) ρ, PEval b ρ (paramDefs ⟨["x"], none⟩ [x]) (ca "pair?" [ca "cdr" [sy "x"]])
+theorem papp_last_pair (x : Value) : PApp V b (libProc "last-pair" b) [x] (lastPairS x) := by
+  have test : ∀ (x : Value) ρ, PEval V b ρ (paramDefs ⟨["x"], none⟩ [x]) (ca "pair?" [ca "cdr" [sy "x"]])
       ((cdrS x).bind fun v => .ok (.bool (isPair v))) := fun x ρ =>
     PEval.call1 (k := fun v => .ok (.bool (isPair v))) (lkB .isPair) (by rfl)
       (PEval.call1 (lkB .cdr) (by rfl) (PEval.var (by rfl)) fun _ _ => PApp.cdr) fun _ _ => PApp.isPair
-  have nonpair : ∀ x, isPair x = false → PApp b (libProc "last-pair" b) [x] (.error typeErr) := by
+  have nonpair : ∀ x, isPair x = false → PApp V b (libProc "last-pair" b) [x] (.error typeErr) := by
     intro x hx
     have hc : cdrS x = .error typeErr := by cases x <;> first | rfl | simp [isPair] at hx
     rw [libProc_last_pair]
@@ -1248,18 +1293,18 @@ theorem papp_last_pair (x : Value) : PApp b (libProc "last-pair" b) [x] (lastPai
   | _ => exact nonpair _ rfl
 
 /-- `(list? x)` -/
-theorem papp_list_pred (x : Value) : PApp b (libProc "list?" b) [x] (.ok (.bool (isProperList x))) := by
-  have test1 : ∀ (x : Value) ρ, PEval b ρ (paramDefs ⟨["x"], none⟩ [x]) (ca "eq?" [sy "x", q0]) (.ok (.bool (isNil x))) := by
+theorem papp_list_pred (x : Value) : PApp V b (libProc "list?" b) [x] (.ok (.bool (isProperList x))) := by
+  have test1 : ∀ (x : Value) ρ, PEval V b ρ (paramDefs ⟨["x"], none⟩ [x]) (ca "eq?" [sy "x", q0]) (.ok (.bool (isNil x))) := by
     intro x ρ
     refine (PEval.call2 (k := fun v₁ v₂ => .ok (.bool (Prim.eqv v₁ v₂))) (lkB .eq) (by rfl)
       (PEval.var (by rfl)) PEval.nil fun _ _ _ _ => PApp.eq).congr ?_
     simp [Except.bind, eqv_nil]
-  have test2 : ∀ (x : Value) ρ, PEval b ρ (paramDefs ⟨["x"], none⟩ [x]) (ca "pair?" [sy "x"]) (.ok (.bool (isPair x))) := by
+  have test2 : ∀ (x : Value) ρ, PEval V b ρ (paramDefs ⟨["x"], none⟩ [x]) (ca "pair?" [sy "x"]) (.ok (.bool (isPair x))) := by
     intro x ρ
     exact PEval.call1 (k := fun v => .ok (.bool (isPair v))) (lkB .isPair) (by rfl) (PEval.var (by rfl)) fun _ _ => PApp.isPair
-  have lit : ∀ (x : Value) ρ (c : Bool), PTail b ρ (paramDefs ⟨["x"], none⟩ [x]) (pr (.bool c)) (.ok (.bool c)) :=
+  have lit : ∀ (x : Value) ρ (c : Bool), PTail V b ρ (paramDefs ⟨["x"], none⟩ [x]) (pr (.bool c)) (.ok (.bool c)) :=
     fun x ρ c => PTail.value (by intros; simp) (by intros; simp) (PEval.prim (by rfl))
-  have other : ∀ x, isPair x = false → isNil x = false → PApp b (libProc "list?" b) [x] (.ok (.bool false)) := by
+  have other : ∀ x, isPair x = false → isNil x = false → PApp V b (libProc "list?" b) [x] (.ok (.bool false)) := by
     intro x hp hn
     rw [libProc_list_pred]
     refine PApp.closure (by rfl) fun ρ => ?_
@@ -1282,9 +1327,9 @@ theorem papp_list_pred (x : Value) : PApp b (libProc "list?" b) [x] (.ok (.bool 
       (fun er h => by cases h)
     refine PTail.cond (test2 (.pair a d) ρ) (fun tv h _ => ?_) (fun tv h ht => by cases h; simp [isPair, Value.truthy] at ht)
       (fun er h => by cases h)
-    have test3 : PEval b ρ (paramDefs ⟨["x"], none⟩ [.pair a d]) (ca "list?" [ca "cdr" [sy "x"]])
+    have test3 : PEval V b ρ (paramDefs ⟨["x"], none⟩ [.pair a d]) (ca "list?" [ca "cdr" [sy "x"]])
         (.ok (.bool (isProperList d))) :=
-      PEval.congr (PEval.call1 (k := fun v => .ok (.bool (isProperList v))) (lkP 29) (procArity_libProc (i := 29) rfl)
+      PEval.congr (PEval.call1 (k := fun v => .ok (.bool (isProperList v))) (lkP 30) (procArity_libProc (i := 30) rfl)
         (PEval.call1 (lkB .cdr) (by rfl) (PEval.var (by rfl)) fun _ _ => PApp.cdr)
         fun v hv => by cases hv; exact ihd) rfl
     refine PTail.cond test3 (fun tv h ht => ?_) (fun tv h ht => ?_) (fun er h => by cases h)
@@ -1300,19 +1345,19 @@ theorem papp_list_pred (x : Value) : PApp b (libProc "list?" b) [x] (.ok (.bool 
 
 end procs2
 section procs3
-variable (b : Nat)
+variable {V : Array VecCell} (b : Nat)
 
 /-- `(memq obj lst)` -/
-theorem papp_memq (obj lst : Value) : PApp b (libProc "memq" b) [obj, lst] (memS obj lst) := by
-  have test1 : ∀ (lst : Value) ρ, PEval b ρ (paramDefs ⟨["obj", "lst"], none⟩ [obj, lst]) (ca "null?" [sy "lst"])
+theorem papp_memq (obj lst : Value) : PApp V b (libProc "memq" b) [obj, lst] (memS obj lst) := by
+  have test1 : ∀ (lst : Value) ρ, PEval V b ρ (paramDefs ⟨["obj", "lst"], none⟩ [obj, lst]) (ca "null?" [sy "lst"])
       (.ok (.bool (isNil lst))) := fun lst ρ =>
     PEval.call1 (k := fun v => .ok (.bool (isNil v))) (lkP 14) (procArity_libProc (i := 14) rfl)
       (PEval.var (by rfl)) fun v _ => papp_null b v
-  have test2 : ∀ (lst : Value) ρ, PEval b ρ (paramDefs ⟨["obj", "lst"], none⟩ [obj, lst])
+  have test2 : ∀ (lst : Value) ρ, PEval V b ρ (paramDefs ⟨["obj", "lst"], none⟩ [obj, lst])
       (ca "eq?" [sy "obj", ca "car" [sy "lst"]]) ((carS lst).bind fun a => .ok (.bool (Prim.eqv obj a))) := fun lst ρ =>
     PEval.congr (PEval.call2 (k := fun v₁ v₂ => .ok (.bool (Prim.eqv v₁ v₂))) (lkB .eq) (by rfl) (PEval.var (by rfl))
       (PEval.call1 (lkB .car) (by rfl) (PEval.var (by rfl)) fun _ _ => PApp.car) fun _ _ _ _ => PApp.eq) rfl
-  have other : ∀ lst, isPair lst = false → isNil lst = false → PApp b (libProc "memq" b) [obj, lst] (.error typeErr) := by
+  have other : ∀ lst, isPair lst = false → isNil lst = false → PApp V b (libProc "memq" b) [obj, lst] (.error typeErr) := by
     intro lst hp hn
     have hc : carS lst = .error typeErr := by cases lst <;> first | rfl | simp [isPair] at hp
     rw [libProc_memq]
@@ -1349,16 +1394,16 @@ theorem papp_memq (obj lst : Value) : PApp b (libProc "memq" b) [obj, lst] (memS
   | _ => exact other _ rfl rfl
 
 /-- `(memv obj lst)` -/
-theorem papp_memv (obj lst : Value) : PApp b (libProc "memv" b) [obj, lst] (memS obj lst) := by
-  have test1 : ∀ (lst : Value) ρ, PEval b ρ (paramDefs ⟨["obj", "lst"], none⟩ [obj, lst]) (ca "null?" [sy "lst"])
+theorem papp_memv (obj lst : Value) : PApp V b (libProc "memv" b) [obj, lst] (memS obj lst) := by
+  have test1 : ∀ (lst : Value) ρ, PEval V b ρ (paramDefs ⟨["obj", "lst"], none⟩ [obj, lst]) (ca "null?" [sy "lst"])
       (.ok (.bool (isNil lst))) := fun lst ρ =>
     PEval.call1 (k := fun v => .ok (.bool (isNil v))) (lkP 14) (procArity_libProc (i := 14) rfl)
       (PEval.var (by rfl)) fun v _ => papp_null b v
-  have test2 : ∀ (lst : Value) ρ, PEval b ρ (paramDefs ⟨["obj", "lst"], none⟩ [obj, lst])
+  have test2 : ∀ (lst : Value) ρ, PEval V b ρ (paramDefs ⟨["obj", "lst"], none⟩ [obj, lst])
       (ca "eqv?" [sy "obj", ca "car" [sy "lst"]]) ((carS lst).bind fun a => .ok (.bool (Prim.eqv obj a))) := fun lst ρ =>
     PEval.congr (PEval.call2 (k := fun v₁ v₂ => .ok (.bool (Prim.eqv v₁ v₂))) (lkB .eqv) (by rfl) (PEval.var (by rfl))
       (PEval.call1 (lkB .car) (by rfl) (PEval.var (by rfl)) fun _ _ => PApp.car) fun _ _ _ _ => PApp.eqv) rfl
-  have other : ∀ lst, isPair lst = false → isNil lst = false → PApp b (libProc "memv" b) [obj, lst] (.error typeErr) := by
+  have other : ∀ lst, isPair lst = false → isNil lst = false → PApp V b (libProc "memv" b) [obj, lst] (.error typeErr) := by
     intro lst hp hn
     have hc : carS lst = .error typeErr := by cases lst <;> first | rfl | simp [isPair] at hp
     rw [libProc_memv]
@@ -1395,22 +1440,119 @@ theorem papp_memv (obj lst : Value) : PApp b (libProc "memv" b) [obj, lst] (memS
   | _ => exact other _ rfl rfl
 
 
-/-- `(equal? x y)` -/
-theorem papp_equal (x : Value) : ∀ y : Value, PApp b (libProc "equal?" b) [x, y] (.ok (.bool (equalS x y))) := by
-  have testx : ∀ (x y : Value) ρ, PEval b ρ (paramDefs ⟨["x", "y"], none⟩ [x, y]) (ca "pair?" [sy "x"])
+/-! ### `equal?` and its helper `vector-equal-from?` -/
+
+section equal
+variable (σ₀ : Store)
+
+/-- `(vector-equal-from? x y i)` given `equal?` on the items (at depth `n`): the items from index `i` on -/
+theorem papp_vector_equal_from (n : Nat)
+    (ih : ∀ x y r, equalS σ₀ n x y = some r → PApp σ₀.vecs b (libProc "equal?" b) [x, y] (.ok (.bool r)))
+    {id id' : Nat} {c c' : VecCell} (hc : σ₀.vecs[id]? = some c) (hc' : σ₀.vecs[id']? = some c')
+    (hlen : c.items.length = c'.items.length) (hfit : (c.items.length : Int) ≤ 2147483647) :
+    ∀ (k i : Nat), i + k = c.items.length → ∀ r, allEqS (equalS σ₀ n) (c.items.drop i) (c'.items.drop i) = some r →
+    PApp σ₀.vecs b (libProc "vector-equal-from?" b) [.vec id, .vec id', .num (.int i)] (.ok (.bool r)) := by
+  have test : ∀ (i : Nat) ρ, PEval σ₀.vecs b ρ (paramDefs ⟨["x", "y", "i"], none⟩ [.vec id, .vec id', .num (.int i)])
+      (ca "=" [sy "i", ca "vector-length" [sy "x"]]) (.ok (.bool ((i : Int) == (c.items.length : Int)))) := fun i ρ =>
+    PEval.congr (PEval.call2 (k := fun _ _ => .ok (.bool ((i : Int) == (c.items.length : Int)))) (lkB .numEq) (by rfl)
+      (PEval.var (by rfl))
+      (PEval.call1 (k := fun _ => .ok (.num (.int c.items.length))) (lkB .vectorLength) (by rfl) (PEval.var (by rfl))
+        fun v hv => by cases hv; exact PApp.vectorLength hc)
+      fun v₁ v₂ h₁ h₂ => by cases h₁; cases h₂; exact PApp.numEq_int) rfl
+  have lit : ∀ (i : Nat) ρ (q : Bool), PTail σ₀.vecs b ρ (paramDefs ⟨["x", "y", "i"], none⟩ [.vec id, .vec id', .num (.int i)])
+      (pr (.bool q)) (.ok (.bool q)) :=
+    fun i ρ q => PTail.value (by intros; simp) (by intros; simp) (PEval.prim (by rfl))
+  intro k
+  induction k with
+  | zero =>
+    intro i hi r hr
+    have hi' : i = c.items.length := by omega
+    subst hi'
+    rw [List.drop_length] at hr
+    simp only [allEqS] at hr
+    cases hr
+    rw [libProc_vector_equal_from]
+    refine PApp.closure (by rfl) fun ρ => ?_
+    refine PTail.cond (test _ ρ) (fun tv h _ => ?_) (fun tv h ht => by cases h; simp at ht) (fun er h => by cases h)
+    exact lit _ ρ true
+  | succ k ihk =>
+    intro i hi r hr
+    have hlt : i < c.items.length := by omega
+    have hlt' : i < c'.items.length := by omega
+    have hd : c.items.drop i = c.items[i] :: c.items.drop (i + 1) := by simp
+    have hd' : c'.items.drop i = c'.items[i] :: c'.items.drop (i + 1) := by simp
+    rw [hd, hd'] at hr
+    simp only [allEqS] at hr
+    rw [libProc_vector_equal_from]
+    refine PApp.closure (by rfl) fun ρ => ?_
+    refine PTail.cond (test i ρ) (fun tv h ht => ?_) (fun tv h _ => ?_) (fun er h => by cases h)
+    · cases h
+      rw [truthy_bool] at ht
+      have : (i : Int) = c.items.length := by simpa using ht
+      omega
+    · cases hr₁ : equalS σ₀ n c.items[i] c'.items[i] with
+      | none => rw [hr₁] at hr; cases hr
+      | some r₁ =>
+        rw [hr₁] at hr
+        have test2 : PEval σ₀.vecs b ρ (paramDefs ⟨["x", "y", "i"], none⟩ [.vec id, .vec id', .num (.int i)])
+            (ca "equal?" [ca "vector-ref" [sy "x", sy "i"], ca "vector-ref" [sy "y", sy "i"]]) (.ok (.bool r₁)) :=
+          PEval.congr (PEval.call2 (k := fun _ _ => .ok (.bool r₁)) (lkP 28) (procArity_libProc (i := 28) rfl)
+            (PEval.call2 (k := fun _ _ => .ok c.items[i]) (lkB .vectorRef) (by rfl) (PEval.var (by rfl)) (PEval.var (by rfl))
+              fun v₁ v₂ h₁ h₂ => by cases h₁; cases h₂; exact PApp.vectorRef hc (by simp [hlt]))
+            (PEval.call2 (k := fun _ _ => .ok c'.items[i]) (lkB .vectorRef) (by rfl) (PEval.var (by rfl)) (PEval.var (by rfl))
+              fun v₁ v₂ h₁ h₂ => by cases h₁; cases h₂; exact PApp.vectorRef hc' (by simp [hlt']))
+            fun v₁ v₂ h₁ h₂ => by cases h₁; cases h₂; exact ih _ _ _ hr₁) rfl
+        refine PTail.cond test2 (fun tv h ht => ?_) (fun tv h ht => ?_) (fun er h => by cases h)
+        · cases h
+          rw [truthy_bool] at ht
+          subst ht
+          simp only at hr
+          refine PTail.congr (PTail.call (k := fun _ => .ok (.bool r)) (lkP 29) (procArity_libProc (i := 29) rfl)
+            (PArgs.cons (PEval.var (by rfl)) (PArgs.cons (PEval.var (by rfl))
+              (PArgs.cons (PEval.call2 (k := fun _ _ => .ok (.num (.int ((i + 1 : Nat) : Int)))) (lkB .add) (by rfl)
+                (PEval.var (by rfl)) (PEval.prim (by rfl)) fun v₁ v₂ h₁ h₂ => by
+                  cases h₁; cases h₂
+                  refine (PApp.add_int (a := (i : Int)) (c := 1) ?_ ?_).congr (by simp)
+                  · simp [fitsI32]; omega
+                  · simp [fitsI32]; omega) PArgs.nil)))
+            fun vs hvs => by
+              cases hvs
+              exact ihk (i + 1) (by omega) r hr) rfl
+        · cases h
+          rw [truthy_bool] at ht
+          subst ht
+          simp only at hr
+          cases hr
+          exact lit i ρ false
+
+/-- `(equal? x y)`, by induction on the depth bound of the comparison -/
+theorem papp_equal (hfit : ∀ (i : Nat) (c : VecCell), σ₀.vecs[i]? = some c → (c.items.length : Int) ≤ 2147483647) (n : Nat) :
+    ∀ (x y : Value) (r : Bool), equalS σ₀ n x y = some r →
+    PApp σ₀.vecs b (libProc "equal?" b) [x, y] (.ok (.bool r)) := by
+  have testx : ∀ (x y : Value) ρ, PEval σ₀.vecs b ρ (paramDefs ⟨["x", "y"], none⟩ [x, y]) (ca "pair?" [sy "x"])
       (.ok (.bool (isPair x))) := fun x y ρ =>
     PEval.call1 (k := fun v => .ok (.bool (isPair v))) (lkB .isPair) (by rfl) (PEval.var (by rfl)) fun _ _ => PApp.isPair
-  have testy : ∀ (x y : Value) ρ, PEval b ρ (paramDefs ⟨["x", "y"], none⟩ [x, y]) (ca "pair?" [sy "y"])
+  have testy : ∀ (x y : Value) ρ, PEval σ₀.vecs b ρ (paramDefs ⟨["x", "y"], none⟩ [x, y]) (ca "pair?" [sy "y"])
       (.ok (.bool (isPair y))) := fun x y ρ =>
     PEval.call1 (k := fun v => .ok (.bool (isPair v))) (lkB .isPair) (by rfl) (PEval.var (by rfl)) fun _ _ => PApp.isPair
-  have lit : ∀ (x y : Value) ρ (c : Bool), PTail b ρ (paramDefs ⟨["x", "y"], none⟩ [x, y]) (pr (.bool c)) (.ok (.bool c)) :=
+  have vecx : ∀ (x y : Value) ρ, PEval σ₀.vecs b ρ (paramDefs ⟨["x", "y"], none⟩ [x, y]) (ca "vector?" [sy "x"])
+      (.ok (.bool (isVec x))) := fun x y ρ =>
+    PEval.call1 (k := fun v => .ok (.bool (isVec v))) (lkB .isVector) (by rfl) (PEval.var (by rfl)) fun _ _ => PApp.isVector
+  have vecy : ∀ (x y : Value) ρ, PEval σ₀.vecs b ρ (paramDefs ⟨["x", "y"], none⟩ [x, y]) (ca "vector?" [sy "y"])
+      (.ok (.bool (isVec y))) := fun x y ρ =>
+    PEval.call1 (k := fun v => .ok (.bool (isVec v))) (lkB .isVector) (by rfl) (PEval.var (by rfl)) fun _ _ => PApp.isVector
+  have lit : ∀ (x y : Value) ρ (c : Bool), PTail σ₀.vecs b ρ (paramDefs ⟨["x", "y"], none⟩ [x, y]) (pr (.bool c))
+      (.ok (.bool c)) :=
     fun x y ρ c => PTail.value (by intros; simp) (by intros; simp) (PEval.prim (by rfl))
-  have atom : ∀ x y, isPair x = false → PApp b (libProc "equal?" b) [x, y] (.ok (.bool (!isPair y && Prim.eqv x y))) := by
-    intro x y hx
+  -- neither a pair nor a vector: `eqv?` (unless `y` is a pair)
+  have atom : ∀ x y, isPair x = false → isVec x = false →
+      PApp σ₀.vecs b (libProc "equal?" b) [x, y] (.ok (.bool (!isPair y && Prim.eqv x y))) := by
+    intro x y hx hvx
     rw [libProc_equal_pred]
     refine PApp.closure (by rfl) fun ρ => ?_
     refine PTail.cond (testx x y ρ) (fun tv h ht => by cases h; simp [hx] at ht) (fun tv h _ => ?_) (fun er h => by cases h)
-    have testn : PEval b ρ (paramDefs ⟨["x", "y"], none⟩ [x, y]) (ca "not" [ca "pair?" [sy "y"]])
+    refine PTail.cond (vecx x y ρ) (fun tv h ht => by cases h; simp [hvx] at ht) (fun tv h _ => ?_) (fun er h => by cases h)
+    have testn : PEval σ₀.vecs b ρ (paramDefs ⟨["x", "y"], none⟩ [x, y]) (ca "not" [ca "pair?" [sy "y"]])
         (.ok (.bool (!isPair y))) :=
       PEval.congr (PEval.call1 (k := fun v => .ok (.bool (!v.truthy))) (lkB .not) (by rfl) (testy x y ρ)
         fun _ _ => PApp.not) (by simp [Except.bind])
@@ -1424,47 +1566,121 @@ theorem papp_equal (x : Value) : ∀ y : Value, PApp b (libProc "equal?" b) [x, 
       rw [truthy_bool] at ht
       refine PTail.congr (lit x y ρ false) ?_
       simp [ht]
-  induction x with
-  | pair a d iha ihd =>
-    intro y
-    rw [libProc_equal_pred]
-    refine PApp.closure (by rfl) fun ρ => ?_
-    refine PTail.cond (testx (.pair a d) y ρ) (fun tv h _ => ?_) (fun tv h ht => by cases h; simp [isPair] at ht)
-      (fun er h => by cases h)
-    refine PTail.cond (testy (.pair a d) y ρ) (fun tv h ht => ?_) (fun tv h ht => ?_) (fun er h => by cases h)
-    · cases h
-      rw [truthy_bool] at ht
-      cases y with
-      | pair a' d' =>
-        have testc : PEval b ρ (paramDefs ⟨["x", "y"], none⟩ [.pair a d, .pair a' d'])
-            (ca "equal?" [ca "car" [sy "x"], ca "car" [sy "y"]]) (.ok (.bool (equalS a a'))) :=
-          PEval.congr (PEval.call2 (k := fun v₁ v₂ => .ok (.bool (equalS v₁ v₂))) (lkP 28)
-            (procArity_libProc (i := 28) rfl)
-            (PEval.call1 (lkB .car) (by rfl) (PEval.var (by rfl)) fun _ _ => PApp.car)
-            (PEval.call1 (lkB .car) (by rfl) (PEval.var (by rfl)) fun _ _ => PApp.car)
-            fun v₁ v₂ h₁ h₂ => by cases h₁; cases h₂; exact iha _) rfl
-        refine PTail.cond testc (fun tv h ht => ?_) (fun tv h ht => ?_) (fun er h => by cases h)
-        · cases h
-          rw [truthy_bool] at ht
-          refine PTail.congr (PTail.call2 (k := fun v₁ v₂ => .ok (.bool (equalS v₁ v₂))) (lkP 28)
-            (procArity_libProc (i := 28) rfl)
-            (PEval.call1 (lkB .cdr) (by rfl) (PEval.var (by rfl)) fun _ _ => PApp.cdr)
-            (PEval.call1 (lkB .cdr) (by rfl) (PEval.var (by rfl)) fun _ _ => PApp.cdr)
-            fun v₁ v₂ h₁ h₂ => by cases h₁; cases h₂; exact ihd _) ?_
-          simp [equalS, ht, cdrS, Except.bind]
-        · cases h
-          rw [truthy_bool] at ht
-          refine PTail.congr (lit _ _ ρ false) ?_
-          simp [equalS, ht]
-      | _ => simp [isPair] at ht
-    · cases h
-      rw [truthy_bool] at ht
-      refine PTail.congr (lit _ _ ρ false) ?_
-      cases y <;> first | rfl | simp [isPair] at ht
-  | _ =>
-    intro y
-    refine (atom _ y rfl).congr ?_
-    simp [equalS]
+  induction n with
+  | zero => intro x y r h; simp [equalS] at h
+  | succ n ih =>
+    intro x y r h
+    cases x with
+    | pair a d =>
+      rw [libProc_equal_pred]
+      refine PApp.closure (by rfl) fun ρ => ?_
+      refine PTail.cond (testx (.pair a d) y ρ) (fun tv h' _ => ?_) (fun tv h' ht => by cases h'; simp [isPair] at ht)
+        (fun er h' => by cases h')
+      refine PTail.cond (testy (.pair a d) y ρ) (fun tv h' ht => ?_) (fun tv h' ht => ?_) (fun er h' => by cases h')
+      · cases h'
+        rw [truthy_bool] at ht
+        cases y with
+        | pair a' d' =>
+          simp only [equalS] at h
+          cases hr₁ : equalS σ₀ n a a' with
+          | none => rw [hr₁] at h; cases h
+          | some r₁ =>
+            rw [hr₁] at h
+            have testc : PEval σ₀.vecs b ρ (paramDefs ⟨["x", "y"], none⟩ [.pair a d, .pair a' d'])
+                (ca "equal?" [ca "car" [sy "x"], ca "car" [sy "y"]]) (.ok (.bool r₁)) :=
+              PEval.congr (PEval.call2 (k := fun _ _ => .ok (.bool r₁)) (lkP 28) (procArity_libProc (i := 28) rfl)
+                (PEval.call1 (lkB .car) (by rfl) (PEval.var (by rfl)) fun _ _ => PApp.car)
+                (PEval.call1 (lkB .car) (by rfl) (PEval.var (by rfl)) fun _ _ => PApp.car)
+                fun v₁ v₂ h₁ h₂ => by cases h₁; cases h₂; exact ih _ _ _ hr₁) rfl
+            refine PTail.cond testc (fun tv h' ht => ?_) (fun tv h' ht => ?_) (fun er h' => by cases h')
+            · cases h'
+              rw [truthy_bool] at ht
+              subst ht
+              simp only at h
+              exact PTail.congr (PTail.call2 (k := fun _ _ => .ok (.bool r)) (lkP 28) (procArity_libProc (i := 28) rfl)
+                (PEval.call1 (lkB .cdr) (by rfl) (PEval.var (by rfl)) fun _ _ => PApp.cdr)
+                (PEval.call1 (lkB .cdr) (by rfl) (PEval.var (by rfl)) fun _ _ => PApp.cdr)
+                fun v₁ v₂ h₁ h₂ => by cases h₁; cases h₂; exact ih _ _ _ h) rfl
+            · cases h'
+              rw [truthy_bool] at ht
+              subst ht
+              simp only at h
+              cases h
+              exact lit _ _ ρ false
+        | _ => simp [isPair] at ht
+      · cases h'
+        rw [truthy_bool] at ht
+        have : r = false := by
+          cases y <;> first | (simp only [equalS] at h; cases h; rfl) | (simp [isPair] at ht)
+        subst this
+        exact lit _ _ ρ false
+    | vec i =>
+      rw [libProc_equal_pred]
+      refine PApp.closure (by rfl) fun ρ => ?_
+      refine PTail.cond (testx (.vec i) y ρ) (fun tv h' ht => by cases h'; simp [isPair] at ht) (fun tv h' _ => ?_)
+        (fun er h' => by cases h')
+      refine PTail.cond (vecx (.vec i) y ρ) (fun tv h' _ => ?_) (fun tv h' ht => by cases h'; simp [isVec] at ht)
+        (fun er h' => by cases h')
+      refine PTail.cond (vecy (.vec i) y ρ) (fun tv h' ht => ?_) (fun tv h' ht => ?_) (fun er h' => by cases h')
+      · cases h'
+        rw [truthy_bool] at ht
+        cases y with
+        | vec j =>
+          simp only [equalS] at h
+          cases hc : σ₀.vecs[i]? with
+          | none => rw [hc] at h; simp at h
+          | some c =>
+            cases hc' : σ₀.vecs[j]? with
+            | none => rw [hc, hc'] at h; simp at h
+            | some c' =>
+              rw [hc, hc'] at h
+              simp only at h
+              have testl : PEval σ₀.vecs b ρ (paramDefs ⟨["x", "y"], none⟩ [.vec i, .vec j])
+                  (ca "=" [ca "vector-length" [sy "x"], ca "vector-length" [sy "y"]])
+                  (.ok (.bool ((c.items.length : Int) == (c'.items.length : Int)))) :=
+                PEval.congr (PEval.call2 (k := fun _ _ => .ok (.bool ((c.items.length : Int) == (c'.items.length : Int))))
+                  (lkB .numEq) (by rfl)
+                  (PEval.call1 (k := fun _ => .ok (.num (.int c.items.length))) (lkB .vectorLength) (by rfl)
+                    (PEval.var (by rfl)) fun v hv => by cases hv; exact PApp.vectorLength hc)
+                  (PEval.call1 (k := fun _ => .ok (.num (.int c'.items.length))) (lkB .vectorLength) (by rfl)
+                    (PEval.var (by rfl)) fun v hv => by cases hv; exact PApp.vectorLength hc')
+                  fun v₁ v₂ h₁ h₂ => by cases h₁; cases h₂; exact PApp.numEq_int) rfl
+              refine PTail.cond testl (fun tv h' ht' => ?_) (fun tv h' ht' => ?_) (fun er h' => by cases h')
+              · cases h'
+                rw [truthy_bool] at ht'
+                have hl : c.items.length = c'.items.length := by
+                  have : (c.items.length : Int) = c'.items.length := by simpa using ht'
+                  omega
+                rw [if_pos hl] at h
+                exact PTail.congr (PTail.call (k := fun _ => .ok (.bool r)) (lkP 29) (procArity_libProc (i := 29) rfl)
+                  (PArgs.cons (PEval.var (by rfl)) (PArgs.cons (PEval.var (by rfl))
+                    (PArgs.cons (PEval.prim (by rfl)) PArgs.nil)))
+                  fun vs hvs => by
+                    cases hvs
+                    exact papp_vector_equal_from b σ₀ n ih hc hc' hl (hfit i c hc) c.items.length 0 (by omega) r
+                      (by simpa using h)) rfl
+              · cases h'
+                rw [truthy_bool] at ht'
+                have hl : c.items.length ≠ c'.items.length := by
+                  intro e
+                  rw [e] at ht'
+                  simp at ht'
+                rw [if_neg hl] at h
+                cases h
+                exact lit _ _ ρ false
+        | _ => simp [isVec] at ht
+      · cases h'
+        rw [truthy_bool] at ht
+        have : r = false := by
+          cases y <;> first | (simp only [equalS] at h; cases h; rfl) | (simp [isVec] at ht)
+        subst this
+        exact lit _ _ ρ false
+    | _ =>
+      simp only [equalS] at h
+      cases h
+      exact atom _ y rfl rfl
+
+end equal
 
 theorem replicate_toNat_succ {k : Int} (hk : 0 < k) (fill : Value) :
     makeListS k fill = .pair fill (makeListS (k - 1) fill) := by
@@ -1473,8 +1689,8 @@ theorem replicate_toNat_succ {k : Int} (hk : 0 < k) (fill : Value) :
 
 /-- `(make-list k fill)` -/
 theorem papp_make_list (fill : Value) (n : Nat) : ∀ (k : Int), k.toNat = n → k ≤ 2147483647 →
-    PApp b (libProc "make-list" b) [.num (.int k), fill] (.ok (makeListS k fill)) := by
-  have test : ∀ (k : Int) ρ, PEval b ρ (paramDefs ⟨["k", "fill"], none⟩ [.num (.int k), fill])
+    PApp V b (libProc "make-list" b) [.num (.int k), fill] (.ok (makeListS k fill)) := by
+  have test : ∀ (k : Int) ρ, PEval V b ρ (paramDefs ⟨["k", "fill"], none⟩ [.num (.int k), fill])
       (ca ">" [sy "k", pr (.int 0)]) (.ok (.bool (decide (k > 0)))) := fun k ρ =>
     PEval.congr (PEval.call2 (k := fun _ _ => .ok (.bool (decide (k > 0)))) (lkB .gt) (by rfl) (PEval.var (by rfl))
       (PEval.prim (by rfl)) fun v₁ v₂ h₁ h₂ => by cases h₁; cases h₂; exact PApp.gt_int) rfl
@@ -1517,17 +1733,17 @@ end procs3
 /-! ## `append` -/
 
 section append
-variable {b ρ : Nat} {bs : List (String × Value)}
+variable {V : Array VecCell} {b ρ : Nat} {bs : List (String × Value)}
 
 /-- a name of the library as an operand -/
-theorem PEval.sym {y l v} (hf : ∀ σ, Scope b ρ bs σ → σ.lookup ρ y = some v) : PEval b ρ bs (.sym y l) (.ok v) :=
-  fun σ h => ⟨σ, Evals.sym (hf σ h), .refl σ⟩
+theorem PEval.sym {y l v} (hf : ∀ σ, Scope b ρ bs σ → σ.lookup ρ y = some v) : PEval V b ρ bs (.sym y l) (.ok v) :=
+  fun σ h _ => ⟨σ, Evals.sym (hf σ h), .refl σ⟩
 
 theorem PEval.call3 {f l a₁ a₂ a₃ l' fv r₁ r₂ r₃} {k : Value → Value → Value → Except SErr Value}
     (hf : ∀ σ, Scope b ρ bs σ → σ.lookup ρ f = some fv) (hp : (procArity fv).isSome)
-    (h₁ : PEval b ρ bs a₁ r₁) (h₂ : PEval b ρ bs a₂ r₂) (h₃ : PEval b ρ bs a₃ r₃)
-    (hk : ∀ v₁ v₂ v₃, r₁ = .ok v₁ → r₂ = .ok v₂ → r₃ = .ok v₃ → PApp b fv [v₁, v₂, v₃] (k v₁ v₂ v₃)) :
-    PEval b ρ bs (.call (.sym f l) [a₁, a₂, a₃] l')
+    (h₁ : PEval V b ρ bs a₁ r₁) (h₂ : PEval V b ρ bs a₂ r₂) (h₃ : PEval V b ρ bs a₃ r₃)
+    (hk : ∀ v₁ v₂ v₃, r₁ = .ok v₁ → r₂ = .ok v₂ → r₃ = .ok v₃ → PApp V b fv [v₁, v₂, v₃] (k v₁ v₂ v₃)) :
+    PEval V b ρ bs (.call (.sym f l) [a₁, a₂, a₃] l')
       (r₁.bind fun v₁ => r₂.bind fun v₂ => r₃.bind fun v₃ => k v₁ v₂ v₃) := by
   refine (PEval.call (k := fun vs => match vs with | [v₁, v₂, v₃] => k v₁ v₂ v₃ | _ => .error (.other, none)) hf hp
     (PArgs.cons h₁ (PArgs.cons h₂ (PArgs.cons h₃ PArgs.nil))) ?_).congr ?_
@@ -1554,50 +1770,50 @@ theorem spreadApply_ofList {f : Value} (hf : (procArity f).isSome) (init xs : Li
 
 /-- `(apply f a … lst)` with a proper list `lst` -/
 theorem PApp.apply {f : Value} {init xs : List Value} {r} (hf : (procArity f).isSome)
-    (h : PApp b f (init ++ xs) r) : PApp b (.builtin .apply) (f :: (init ++ [Value.ofList xs])) r := by
-  intro σ env hl
-  obtain ⟨σ', h', e⟩ := h σ env hl
+    (h : PApp V b f (init ++ xs) r) : PApp V b (.builtin .apply) (f :: (init ++ [Value.ofList xs])) r := by
+  intro σ env hl hv
+  obtain ⟨σ', h', e⟩ := h σ env hl hv
   exact ⟨σ', Applies.apply (by simp) (spreadApply_ofList hf init xs) h', e⟩
 
 theorem PApp.apply1 {f : Value} {xs : List Value} {r} (hf : (procArity f).isSome)
-    (h : PApp b f xs r) : PApp b (.builtin .apply) [f, Value.ofList xs] r :=
+    (h : PApp V b f xs r) : PApp V b (.builtin .apply) [f, Value.ofList xs] r :=
   PApp.apply (init := []) hf h
 theorem PApp.apply2 {f a : Value} {xs : List Value} {r} (hf : (procArity f).isSome)
-    (h : PApp b f (a :: xs) r) : PApp b (.builtin .apply) [f, a, Value.ofList xs] r :=
+    (h : PApp V b f (a :: xs) r) : PApp V b (.builtin .apply) [f, a, Value.ofList xs] r :=
   PApp.apply (init := [a]) hf h
 
 end append
 
 section procs4
-variable (b : Nat)
+variable {V : Array VecCell} (b : Nat)
 
-theorem papp_append_nil : PApp b (libProc "append" b) [] (.ok .nil) := by
+theorem papp_append_nil : PApp V b (libProc "append" b) [] (.ok .nil) := by
   rw [libProc_append]
   refine PApp.closure (by rfl) fun ρ => ?_
-  have test1 : PEval b ρ (paramDefs ⟨[], some "lsts"⟩ []) (ca "null?" [sy "lsts"]) (.ok (.bool true)) :=
+  have test1 : PEval V b ρ (paramDefs ⟨[], some "lsts"⟩ []) (ca "null?" [sy "lsts"]) (.ok (.bool true)) :=
     PEval.congr (PEval.call1 (k := fun v => .ok (.bool (isNil v))) (lkP 14) (procArity_libProc (i := 14) rfl)
       (PEval.var (by rfl)) fun v _ => papp_null b v) rfl
   refine PTail.cond test1 (fun tv h _ => ?_) (fun tv h ht => by cases h; simp at ht) (fun er h => by cases h)
   exact PTail.thunk fun ρ' => PTail.value (by intros; simp) (by intros; simp) PEval.nil
 
 /-- `(append l …)`, by induction on the arguments and, inside, on the first one -/
-theorem papp_append (rest : List Value) : ∀ l : Value, PApp b (libProc "append" b) (l :: rest) (appendE (l :: rest)) := by
+theorem papp_append (rest : List Value) : ∀ l : Value, PApp V b (libProc "append" b) (l :: rest) (appendE (l :: rest)) := by
   have hclo : (procArity (libProc "append" b)).isSome := procArity_libProc (i := 15) rfl
-  have test1 : ∀ (args : List Value) ρ, PEval b ρ (paramDefs ⟨[], some "lsts"⟩ args) (ca "null?" [sy "lsts"])
+  have test1 : ∀ (args : List Value) ρ, PEval V b ρ (paramDefs ⟨[], some "lsts"⟩ args) (ca "null?" [sy "lsts"])
       (.ok (.bool (isNil (Value.ofList args)))) := fun args ρ =>
     PEval.congr (PEval.call1 (k := fun v => .ok (.bool (isNil v))) (lkP 14) (procArity_libProc (i := 14) rfl)
       (PEval.var (by rfl)) fun v _ => papp_null b v) rfl
-  have vcdr : ∀ (l : Value) (rest : List Value) ρ, PEval b ρ (paramDefs ⟨[], some "lsts"⟩ (l :: rest))
+  have vcdr : ∀ (l : Value) (rest : List Value) ρ, PEval V b ρ (paramDefs ⟨[], some "lsts"⟩ (l :: rest))
       (ca "cdr" [sy "lsts"]) (.ok (Value.ofList rest)) := fun l rest ρ =>
     PEval.congr (PEval.call1 (lkB .cdr) (by rfl) (PEval.var (by rfl)) fun _ _ => PApp.cdr) rfl
-  have vcar : ∀ (l : Value) (rest : List Value) ρ, PEval b ρ (paramDefs ⟨[], some "lsts"⟩ (l :: rest))
+  have vcar : ∀ (l : Value) (rest : List Value) ρ, PEval V b ρ (paramDefs ⟨[], some "lsts"⟩ (l :: rest))
       (ca "car" [sy "lsts"]) (.ok l) := fun l rest ρ =>
     PEval.congr (PEval.call1 (lkB .car) (by rfl) (PEval.var (by rfl)) fun _ _ => PApp.car) rfl
-  have test2 : ∀ (l : Value) (rest : List Value) ρ, PEval b ρ (paramDefs ⟨[], some "lsts"⟩ (l :: rest))
+  have test2 : ∀ (l : Value) (rest : List Value) ρ, PEval V b ρ (paramDefs ⟨[], some "lsts"⟩ (l :: rest))
       (ca "null?" [ca "cdr" [sy "lsts"]]) (.ok (.bool (isNil (Value.ofList rest)))) := fun l rest ρ =>
     PEval.congr (PEval.call1 (k := fun v => .ok (.bool (isNil v))) (lkP 14) (procArity_libProc (i := 14) rfl)
       (vcdr l rest ρ) fun v _ => papp_null b v) rfl
-  have test3 : ∀ (l : Value) (rest : List Value) ρ, PEval b ρ (paramDefs ⟨[], some "lsts"⟩ (l :: rest))
+  have test3 : ∀ (l : Value) (rest : List Value) ρ, PEval V b ρ (paramDefs ⟨[], some "lsts"⟩ (l :: rest))
       (ca "null?" [ca "car" [sy "lsts"]]) (.ok (.bool (isNil l))) := fun l rest ρ =>
     PEval.congr (PEval.call1 (k := fun v => .ok (.bool (isNil v))) (lkP 14) (procArity_libProc (i := 14) rfl)
       (vcar l rest ρ) fun v _ => papp_null b v) rfl
@@ -1614,11 +1830,11 @@ theorem papp_append (rest : List Value) : ∀ l : Value, PApp b (libProc "append
   | cons r rs ih =>
     -- the part of the body common to all shapes of `l`
     have body : ∀ (l : Value) (res : Except SErr Value),
-        (∀ ρ, isNil l = true → PTail b ρ (paramDefs ⟨[], some "lsts"⟩ (l :: r :: rs))
+        (∀ ρ, isNil l = true → PTail V b ρ (paramDefs ⟨[], some "lsts"⟩ (l :: r :: rs))
           (ca "apply" [sy "append", ca "cdr" [sy "lsts"]]) res) →
-        (∀ ρ, isNil l = false → PTail b ρ (paramDefs ⟨[], some "lsts"⟩ (l :: r :: rs))
+        (∀ ρ, isNil l = false → PTail V b ρ (paramDefs ⟨[], some "lsts"⟩ (l :: r :: rs))
           (ca "cons" [ca "caar" [sy "lsts"], ca "apply" [sy "append", ca "cdar" [sy "lsts"], ca "cdr" [sy "lsts"]]]) res) →
-        PApp b (libProc "append" b) (l :: r :: rs) res := by
+        PApp V b (libProc "append" b) (l :: r :: rs) res := by
       intro l res h1 h2
       rw [libProc_append]
       refine PApp.closure (by rfl) fun ρ => ?_
@@ -1631,11 +1847,11 @@ theorem papp_append (rest : List Value) : ∀ l : Value, PApp b (libProc "append
         exact PTail.thunk fun ρ' => h1 ρ' ht
       · cases h; rw [truthy_bool] at ht
         exact PTail.thunk fun ρ' => h2 ρ' ht
-    have vcaar : ∀ (l : Value) ρ, PEval b ρ (paramDefs ⟨[], some "lsts"⟩ (l :: r :: rs))
+    have vcaar : ∀ (l : Value) ρ, PEval V b ρ (paramDefs ⟨[], some "lsts"⟩ (l :: r :: rs))
         (ca "caar" [sy "lsts"]) (carS l) := fun l ρ =>
       PEval.congr (PEval.call1 (k := caarS) (lkP 0) (procArity_libProc (i := 0) rfl) (PEval.var (by rfl))
         fun v _ => papp_caar b v) rfl
-    have vcdar : ∀ (l : Value) ρ, PEval b ρ (paramDefs ⟨[], some "lsts"⟩ (l :: r :: rs))
+    have vcdar : ∀ (l : Value) ρ, PEval V b ρ (paramDefs ⟨[], some "lsts"⟩ (l :: r :: rs))
         (ca "cdar" [sy "lsts"]) (cdrS l) := fun l ρ =>
       PEval.congr (PEval.call1 (k := cdarS) (lkP 2) (procArity_libProc (i := 2) rfl) (PEval.var (by rfl))
         fun v _ => papp_cdar b v) rfl
@@ -1859,8 +2075,8 @@ theorem map_run (t : Value) (ht : isPair t = false) : ∀ (xs : List Value) (σ 
     N ≤ σ.frames.size → ProcArg b N K f (fun args => ∃ x ∈ xs, args = [x]) → ∀ env,
     ∃ r σ', Applies σ (libProc "map" b) [f, withTail xs t] env (r.map (withTail · t)) σ' ∧
       MapM (AppOf f) Store.DExt σ xs r σ' ∧ (∀ vs, r = .ok vs → K σ') := by
-  have test : ∀ (l : Value) ρ, PEval b ρ (paramDefs ⟨["proc", "list"], none⟩ [f, l]) (ca "pair?" [sy "list"])
-      (.ok (.bool (isPair l))) := fun l ρ =>
+  have test : ∀ V (l : Value) ρ, PEval V b ρ (paramDefs ⟨["proc", "list"], none⟩ [f, l]) (ca "pair?" [sy "list"])
+      (.ok (.bool (isPair l))) := fun V l ρ =>
     PEval.congr (PEval.call1 (k := fun v => .ok (.bool (isPair v))) (lkB .isPair) (by rfl) (PEval.var (by rfl))
       fun _ _ => PApp.isPair) rfl
   intro xs
@@ -1868,7 +2084,7 @@ theorem map_run (t : Value) (ht : isPair t = false) : ∀ (xs : List Value) (σ 
   | nil =>
     intro σ hl hK hN hf env
     have hc := InCall.of_call hl ⟨["proc", "list"], none⟩ [f, t]
-    obtain ⟨σ₂, h₂, e₂⟩ := test t _ _ hc.scope
+    obtain ⟨σ₂, h₂, e₂⟩ := test _ t _ _ hc.scope rfl
     have hc₂ := hc.ext e₂.framesExt
     refine ⟨.ok [], σ₂, ?_, .nil ((callFrame_ext ..).dExt.trans (e₂.dExt)), fun _ _ =>
       hf.stable _ _ hK ((callFrame_ext ..).dExt.trans (e₂.dExt))⟩
@@ -1879,13 +2095,13 @@ theorem map_run (t : Value) (ht : isPair t = false) : ∀ (xs : List Value) (σ 
     intro σ hl hK hN hf env
     have hc := InCall.of_call hl ⟨["proc", "list"], none⟩ [f, .pair x (withTail xs t)]
     have e₁ := callFrame_ext σ b ⟨["proc", "list"], none⟩ [f, .pair x (withTail xs t)]
-    obtain ⟨σ₂, h₂, e₂⟩ := test (.pair x (withTail xs t)) _ _ hc.scope
+    obtain ⟨σ₂, h₂, e₂⟩ := test _ (.pair x (withTail xs t)) _ _ hc.scope rfl
     have hc₂ := hc.ext e₂.framesExt
     -- the operand of `proc`
-    have hcar : PArgs b σ.frames.size (paramDefs ⟨["proc", "list"], none⟩ [f, .pair x (withTail xs t)])
-        [ca "car" [sy "list"]] (.ok [x]) :=
+    have hcar : ∀ V, PArgs V b σ.frames.size (paramDefs ⟨["proc", "list"], none⟩ [f, .pair x (withTail xs t)])
+        [ca "car" [sy "list"]] (.ok [x]) := fun V =>
       PArgs.congr (PArgs.cons (PEval.call1 (lkB .car) (by rfl) (PEval.var (by rfl)) fun _ _ => PApp.car) PArgs.nil) rfl
-    obtain ⟨σ₃, h₃, e₃⟩ := hcar _ hc₂.scope
+    obtain ⟨σ₃, h₃, e₃⟩ := hcar _ _ hc₂.scope rfl
     have d₃ : σ.DExt (enter σ₃) :=
       (((e₁.dExt).trans (e₂.dExt)).trans (e₃.dExt)).trans (dExt_enter σ₃)
     obtain ⟨r₁, σ₄, happ, hkeep, hK₄⟩ := hf.app (enter σ₃) [x] (hf.stable _ _ hK d₃)
@@ -1906,11 +2122,11 @@ theorem map_run (t : Value) (ht : isPair t = false) : ∀ (xs : List Value) (σ 
           (Nat.le_trans hN (Nat.le_refl _))).ext (Store.framesExt_leave σ₄)
       have hK₄' : K (leave σ₄) := hf.stable _ _ (hK₄ v rfl) (dExt_leave σ₄)
       -- the operands of the recursive call
-      have hrec : PArgs b σ.frames.size (paramDefs ⟨["proc", "list"], none⟩ [f, .pair x (withTail xs t)])
-          [sy "proc", ca "cdr" [sy "list"]] (.ok [f, withTail xs t]) :=
+      have hrec : ∀ V, PArgs V b σ.frames.size (paramDefs ⟨["proc", "list"], none⟩ [f, .pair x (withTail xs t)])
+          [sy "proc", ca "cdr" [sy "list"]] (.ok [f, withTail xs t]) := fun V =>
         PArgs.congr (PArgs.cons (PEval.var (by rfl))
           (PArgs.cons (PEval.call1 (lkB .cdr) (by rfl) (PEval.var (by rfl)) fun _ _ => PApp.cdr) PArgs.nil)) rfl
-      obtain ⟨σ₅, h₅, e₅⟩ := hrec _ hc₄.scope
+      obtain ⟨σ₅, h₅, e₅⟩ := hrec _ _ hc₄.scope rfl
       have d₅ : (leave σ₄).DExt (enter σ₅) := (e₅.dExt).trans (dExt_enter σ₅)
       have hN₅ : N ≤ (enter σ₅).frames.size :=
         Nat.le_trans (Nat.le_trans (Nat.le_trans hN d₃.size) hkeep.size) d₅.size
@@ -1947,8 +2163,8 @@ theorem for_each_run (t : Value) (ht : isPair t = false) : ∀ (xs : List Value)
     N ≤ σ.frames.size → ProcArg b N K f (fun args => ∃ x ∈ xs, args = [x]) → ∀ env,
     ∃ r σ', Applies σ (libProc "for-each" b) [f, withTail xs t] env (r.map fun _ => Value.void) σ' ∧
       MapM (AppOf f) Store.DExt σ xs r σ' ∧ (∀ vs, r = .ok vs → K σ') := by
-  have test : ∀ (l : Value) ρ, PEval b ρ (paramDefs ⟨["proc", "list"], none⟩ [f, l]) (ca "pair?" [sy "list"])
-      (.ok (.bool (isPair l))) := fun l ρ =>
+  have test : ∀ V (l : Value) ρ, PEval V b ρ (paramDefs ⟨["proc", "list"], none⟩ [f, l]) (ca "pair?" [sy "list"])
+      (.ok (.bool (isPair l))) := fun V l ρ =>
     PEval.congr (PEval.call1 (k := fun v => .ok (.bool (isPair v))) (lkB .isPair) (by rfl) (PEval.var (by rfl))
       fun _ _ => PApp.isPair) rfl
   intro xs
@@ -1956,7 +2172,7 @@ theorem for_each_run (t : Value) (ht : isPair t = false) : ∀ (xs : List Value)
   | nil =>
     intro σ hl hK hN hf env
     have hc := InCall.of_call hl ⟨["proc", "list"], none⟩ [f, t]
-    obtain ⟨σ₂, h₂, e₂⟩ := test t _ _ hc.scope
+    obtain ⟨σ₂, h₂, e₂⟩ := test _ t _ _ hc.scope rfl
     refine ⟨.ok [], σ₂, ?_, .nil ((callFrame_ext ..).dExt.trans e₂.dExt), fun _ _ =>
       hf.stable _ _ hK ((callFrame_ext ..).dExt.trans e₂.dExt)⟩
     rw [libProc_for_each]
@@ -1965,15 +2181,15 @@ theorem for_each_run (t : Value) (ht : isPair t = false) : ∀ (xs : List Value)
     intro σ hl hK hN hf env
     have hc := InCall.of_call hl ⟨["proc", "list"], none⟩ [f, .pair x (withTail xs t)]
     have e₁ := callFrame_ext σ b ⟨["proc", "list"], none⟩ [f, .pair x (withTail xs t)]
-    obtain ⟨σ₂, h₂, e₂⟩ := test (.pair x (withTail xs t)) _ _ hc.scope
+    obtain ⟨σ₂, h₂, e₂⟩ := test _ (.pair x (withTail xs t)) _ _ hc.scope rfl
     have hc₂ := hc.ext e₂.framesExt
     -- the body of the `lambda ()` runs in a fresh frame under the frame of the call
     have ht₂ := InThunk.of_call hc₂
     have e₂' := callFrame_ext σ₂ σ.frames.size ⟨[], none⟩ []
-    have hcar : PArgs b σ₂.frames.size (paramDefs ⟨["proc", "list"], none⟩ [f, .pair x (withTail xs t)])
-        [ca "car" [sy "list"]] (.ok [x]) :=
+    have hcar : ∀ V, PArgs V b σ₂.frames.size (paramDefs ⟨["proc", "list"], none⟩ [f, .pair x (withTail xs t)])
+        [ca "car" [sy "list"]] (.ok [x]) := fun V =>
       PArgs.congr (PArgs.cons (PEval.call1 (lkB .car) (by rfl) (PEval.var (by rfl)) fun _ _ => PApp.car) PArgs.nil) rfl
-    obtain ⟨σ₃, h₃, e₃⟩ := hcar _ ht₂.scope
+    obtain ⟨σ₃, h₃, e₃⟩ := hcar _ _ ht₂.scope rfl
     have d₃ : σ.DExt (enter σ₃) :=
       (((e₁.dExt.trans e₂.dExt).trans e₂'.dExt).trans e₃.dExt).trans (Store.dExt_enter σ₃)
     have hNρ : N ≤ σ.frames.size := hN
@@ -1995,11 +2211,11 @@ theorem for_each_run (t : Value) (ht : isPair t = false) : ∀ (xs : List Value)
           (Store.Keeps.of_framesExt (Store.framesExt_enter σ₃) b N) hNρ).keep hkeep hNρ).keep
           (Store.Keeps.of_framesExt (Store.framesExt_leave σ₄) b N) hNρ)
       have hK₄' : K (leave σ₄) := hf.stable _ _ (hK₄ v rfl) (Store.dExt_leave σ₄)
-      have hrec : PArgs b σ₂.frames.size (paramDefs ⟨["proc", "list"], none⟩ [f, .pair x (withTail xs t)])
-          [sy "proc", ca "cdr" [sy "list"]] (.ok [f, withTail xs t]) :=
+      have hrec : ∀ V, PArgs V b σ₂.frames.size (paramDefs ⟨["proc", "list"], none⟩ [f, .pair x (withTail xs t)])
+          [sy "proc", ca "cdr" [sy "list"]] (.ok [f, withTail xs t]) := fun V =>
         PArgs.congr (PArgs.cons (PEval.var (by rfl))
           (PArgs.cons (PEval.call1 (lkB .cdr) (by rfl) (PEval.var (by rfl)) fun _ _ => PApp.cdr) PArgs.nil)) rfl
-      obtain ⟨σ₅, h₅, e₅⟩ := hrec _ ht₄.scope
+      obtain ⟨σ₅, h₅, e₅⟩ := hrec _ _ ht₄.scope rfl
       have hN₅ : N ≤ σ₅.frames.size :=
         Nat.le_trans (Nat.le_trans (Nat.le_trans hN d₃.size) hkeep.size) e₅.size
       obtain ⟨r₂, σ₆, happ₂, htr₂, hK₆⟩ := ih σ₅ (ht₄.call.lib.ext e₅.framesExt)
@@ -2035,8 +2251,8 @@ theorem fold_left_run (t : Value) (ht : isPair t = false) : ∀ (xs : List Value
     ProcArg b N K f (fun args => ∃ x ∈ xs, ∃ a, args = [x, a]) → ∀ env,
     ∃ r σ', Applies σ (libProc "fold-left" b) [f, acc, withTail xs t] env (r.bind (foldEnd t)) σ' ∧
       FoldLM (AppOf f) Store.DExt σ acc xs r σ' ∧ (∀ v, r = .ok v → K σ') := by
-  have test : ∀ (acc l : Value) ρ, PEval b ρ (paramDefs ⟨["f", "init", "seq"], none⟩ [f, acc, l])
-      (ca "null?" [sy "seq"]) (.ok (.bool (isNil l))) := fun acc l ρ =>
+  have test : ∀ V (acc l : Value) ρ, PEval V b ρ (paramDefs ⟨["f", "init", "seq"], none⟩ [f, acc, l])
+      (ca "null?" [sy "seq"]) (.ok (.bool (isNil l))) := fun V acc l ρ =>
     PEval.congr (PEval.call1 (k := fun v => .ok (.bool (isNil v))) (lkP 14) (procArity_libProc (i := 14) rfl)
       (PEval.var (by rfl)) fun v _ => papp_null b v) rfl
   intro xs
@@ -2044,7 +2260,7 @@ theorem fold_left_run (t : Value) (ht : isPair t = false) : ∀ (xs : List Value
   | nil =>
     intro σ acc hl hK hN hf env
     have hc := InCall.of_call hl ⟨["f", "init", "seq"], none⟩ [f, acc, t]
-    obtain ⟨σ₂, h₂, e₂⟩ := test acc t _ _ hc.scope
+    obtain ⟨σ₂, h₂, e₂⟩ := test _ acc t _ _ hc.scope rfl
     have hc₂ := hc.ext e₂.framesExt
     rw [libProc_fold_left]
     cases hn : isNil t with
@@ -2057,11 +2273,11 @@ theorem fold_left_run (t : Value) (ht : isPair t = false) : ∀ (xs : List Value
       exact TailRuns.value (by intros; simp) (by intros; simp) (Evals.sym (hc₂.scope.var (by rfl)))
     | false =>
       -- the improper tail: `(car seq)` fails among the operands of the recursive call
-      have hcar : PEval b σ.frames.size (paramDefs ⟨["f", "init", "seq"], none⟩ [f, acc, t])
-          (ca "car" [sy "seq"]) (.error typeErr) :=
+      have hcar : ∀ V, PEval V b σ.frames.size (paramDefs ⟨["f", "init", "seq"], none⟩ [f, acc, t])
+          (ca "car" [sy "seq"]) (.error typeErr) := fun V =>
         PEval.congr (PEval.call1 (lkB .car) (by rfl) (PEval.var (by rfl)) fun _ _ => PApp.car)
           (by cases t <;> first | rfl | simp [isPair] at ht)
-      obtain ⟨σ₃, h₃, e₃⟩ := hcar _ hc₂.scope
+      obtain ⟨σ₃, h₃, e₃⟩ := hcar _ _ hc₂.scope rfl
       have d₃ : σ.DExt σ₃ := ((callFrame_ext ..).dExt.trans e₂.dExt).trans e₃.dExt
       refine ⟨.ok acc, σ₃, ?_, .nil d₃, fun _ _ => hf.stable _ _ hK d₃⟩
       have : (Except.ok acc : Except SErr Value).bind (foldEnd t) = .error typeErr := by
@@ -2075,13 +2291,13 @@ theorem fold_left_run (t : Value) (ht : isPair t = false) : ∀ (xs : List Value
     intro σ acc hl hK hN hf env
     have hc := InCall.of_call hl ⟨["f", "init", "seq"], none⟩ [f, acc, .pair x (withTail xs t)]
     have e₁ := callFrame_ext σ b ⟨["f", "init", "seq"], none⟩ [f, acc, .pair x (withTail xs t)]
-    obtain ⟨σ₂, h₂, e₂⟩ := test acc (.pair x (withTail xs t)) _ _ hc.scope
+    obtain ⟨σ₂, h₂, e₂⟩ := test _ acc (.pair x (withTail xs t)) _ _ hc.scope rfl
     have hc₂ := hc.ext e₂.framesExt
-    have hops : PArgs b σ.frames.size (paramDefs ⟨["f", "init", "seq"], none⟩ [f, acc, .pair x (withTail xs t)])
-        [ca "car" [sy "seq"], sy "init"] (.ok [x, acc]) :=
+    have hops : ∀ V, PArgs V b σ.frames.size (paramDefs ⟨["f", "init", "seq"], none⟩ [f, acc, .pair x (withTail xs t)])
+        [ca "car" [sy "seq"], sy "init"] (.ok [x, acc]) := fun V =>
       PArgs.congr (PArgs.cons (PEval.call1 (lkB .car) (by rfl) (PEval.var (by rfl)) fun _ _ => PApp.car)
         (PArgs.cons (PEval.var (by rfl)) PArgs.nil)) rfl
-    obtain ⟨σ₃, h₃, e₃⟩ := hops _ hc₂.scope
+    obtain ⟨σ₃, h₃, e₃⟩ := hops _ _ hc₂.scope rfl
     have d₃ : σ.DExt (enter σ₃) := ((e₁.dExt.trans e₂.dExt).trans e₃.dExt).trans (Store.dExt_enter σ₃)
     obtain ⟨r₁, σ₄, happ, hkeep, hK₄⟩ := hf.app (enter σ₃) [x, acc] (hf.stable _ _ hK d₃)
       (Nat.le_trans hN d₃.size) ⟨x, by simp, acc, rfl⟩
@@ -2101,11 +2317,11 @@ theorem fold_left_run (t : Value) (ht : isPair t = false) : ∀ (xs : List Value
         (((hc₂.ext e₃.framesExt).ext (Store.framesExt_enter σ₃)).keep hkeep
           (Nat.le_trans hN (Nat.le_refl _))).ext (Store.framesExt_leave σ₄)
       have hK₄' : K (leave σ₄) := hf.stable _ _ (hK₄ v rfl) (Store.dExt_leave σ₄)
-      have hcdr : PArgs b σ.frames.size (paramDefs ⟨["f", "init", "seq"], none⟩ [f, acc, .pair x (withTail xs t)])
-          [ca "cdr" [sy "seq"]] (.ok [withTail xs t]) :=
+      have hcdr : ∀ V, PArgs V b σ.frames.size (paramDefs ⟨["f", "init", "seq"], none⟩ [f, acc, .pair x (withTail xs t)])
+          [ca "cdr" [sy "seq"]] (.ok [withTail xs t]) := fun V =>
         PArgs.congr (PArgs.cons (PEval.call1 (lkB .cdr) (by rfl) (PEval.var (by rfl)) fun _ _ => PApp.cdr)
           PArgs.nil) rfl
-      obtain ⟨σ₅, h₅, e₅⟩ := hcdr _ hc₄.scope
+      obtain ⟨σ₅, h₅, e₅⟩ := hcdr _ _ hc₄.scope rfl
       have hN₅ : N ≤ σ₅.frames.size :=
         Nat.le_trans (Nat.le_trans (Nat.le_trans hN d₃.size) hkeep.size) e₅.size
       obtain ⟨r₂, σ₆, happ₂, htr₂, hK₆⟩ := ih σ₅ v (hc₄.lib.ext e₅.framesExt)
@@ -2123,8 +2339,8 @@ theorem fold_right_run : ∀ (xs : List Value) (σ : Store) (init : Value),
     ProcArg b N K f (fun args => ∃ x ∈ xs, ∃ a, args = [x, a]) → ∀ env,
     ∃ r σ', Applies σ (libProc "fold-right" b) [f, init, Value.ofList xs] env r σ' ∧
       FoldRM (AppOf f) Store.DExt σ init xs r σ' ∧ (∀ v, r = .ok v → K σ') ∧ σ.frames.size ≤ σ'.frames.size := by
-  have test : ∀ (init l : Value) ρ, PEval b ρ (paramDefs ⟨["f", "init", "seq"], none⟩ [f, init, l])
-      (ca "null?" [sy "seq"]) (.ok (.bool (isNil l))) := fun init l ρ =>
+  have test : ∀ V (init l : Value) ρ, PEval V b ρ (paramDefs ⟨["f", "init", "seq"], none⟩ [f, init, l])
+      (ca "null?" [sy "seq"]) (.ok (.bool (isNil l))) := fun V init l ρ =>
     PEval.congr (PEval.call1 (k := fun v => .ok (.bool (isNil v))) (lkP 14) (procArity_libProc (i := 14) rfl)
       (PEval.var (by rfl)) fun v _ => papp_null b v) rfl
   intro xs
@@ -2132,7 +2348,7 @@ theorem fold_right_run : ∀ (xs : List Value) (σ : Store) (init : Value),
   | nil =>
     intro σ init hl hK hN hf env
     have hc := InCall.of_call hl ⟨["f", "init", "seq"], none⟩ [f, init, .nil]
-    obtain ⟨σ₂, h₂, e₂⟩ := test init .nil _ _ hc.scope
+    obtain ⟨σ₂, h₂, e₂⟩ := test _ init .nil _ _ hc.scope rfl
     have hc₂ := hc.ext e₂.framesExt
     rw [libProc_fold_right]
     refine ⟨.ok init, σ₂, ?_, .nil ((callFrame_ext ..).dExt.trans e₂.dExt), fun _ _ =>
@@ -2143,18 +2359,18 @@ theorem fold_right_run : ∀ (xs : List Value) (σ : Store) (init : Value),
     intro σ init hl hK hN hf env
     have hc := InCall.of_call hl ⟨["f", "init", "seq"], none⟩ [f, init, Value.ofList (x :: xs)]
     have e₁ := callFrame_ext σ b ⟨["f", "init", "seq"], none⟩ [f, init, Value.ofList (x :: xs)]
-    obtain ⟨σ₂, h₂, e₂⟩ := test init (Value.ofList (x :: xs)) _ _ hc.scope
+    obtain ⟨σ₂, h₂, e₂⟩ := test _ init (Value.ofList (x :: xs)) _ _ hc.scope rfl
     have hc₂ := hc.ext e₂.framesExt
-    have hcar : PEval b σ.frames.size (paramDefs ⟨["f", "init", "seq"], none⟩ [f, init, Value.ofList (x :: xs)])
-        (ca "car" [sy "seq"]) (.ok x) :=
+    have hcar : ∀ V, PEval V b σ.frames.size (paramDefs ⟨["f", "init", "seq"], none⟩ [f, init, Value.ofList (x :: xs)])
+        (ca "car" [sy "seq"]) (.ok x) := fun V =>
       PEval.congr (PEval.call1 (lkB .car) (by rfl) (PEval.var (by rfl)) fun _ _ => PApp.car) rfl
-    obtain ⟨σ₂', h₂', e₂'⟩ := hcar _ hc₂.scope
+    obtain ⟨σ₂', h₂', e₂'⟩ := hcar _ _ hc₂.scope rfl
     have hc₂' := hc₂.ext e₂'.framesExt
-    have hrec : PArgs b σ.frames.size (paramDefs ⟨["f", "init", "seq"], none⟩ [f, init, Value.ofList (x :: xs)])
-        [sy "f", sy "init", ca "cdr" [sy "seq"]] (.ok [f, init, Value.ofList xs]) :=
+    have hrec : ∀ V, PArgs V b σ.frames.size (paramDefs ⟨["f", "init", "seq"], none⟩ [f, init, Value.ofList (x :: xs)])
+        [sy "f", sy "init", ca "cdr" [sy "seq"]] (.ok [f, init, Value.ofList xs]) := fun V =>
       PArgs.congr (PArgs.cons (PEval.var (by rfl)) (PArgs.cons (PEval.var (by rfl))
         (PArgs.cons (PEval.call1 (lkB .cdr) (by rfl) (PEval.var (by rfl)) fun _ _ => PApp.cdr) PArgs.nil))) rfl
-    obtain ⟨σ₃, h₃, e₃⟩ := hrec _ hc₂'.scope
+    obtain ⟨σ₃, h₃, e₃⟩ := hrec _ _ hc₂'.scope rfl
     have d₃ : σ.DExt (enter σ₃) :=
       (((e₁.dExt.trans e₂.dExt).trans e₂'.dExt).trans e₃.dExt).trans (Store.dExt_enter σ₃)
     obtain ⟨r₂, σ₄, happ₂, htr₂, hK₄, hsz₄⟩ := ih (enter σ₃) init (hc₂'.lib.ext (e₃.framesExt.trans (Store.framesExt_enter σ₃)))
@@ -2238,31 +2454,31 @@ variable {b : Nat}
 /-- a procedure that is pure on `dom` (it yields `g args` and only appends frames, wherever the
 library frame is) is a good procedure argument, with the library frame itself as the invariant -/
 theorem ProcArg.of_papp {N : Nat} {f : Value} {dom : List Value → Prop} {g : List Value → Except SErr Value}
-    (hp : (procArity f).isSome) (h : ∀ args, dom args → PApp b f args (g args)) :
+    (hp : (procArity f).isSome) (h : ∀ V args, dom args → PApp V b f args (g args)) :
     ProcArg b N (fun σ => LibFrame σ b) f dom where
   proc := hp
   stable _ _ hK he := hK.ext he.framesExt
   app σ args hK _ hd := by
-    have h0 := h args hd σ 0 hK
+    have h0 := h σ.vecs args hd σ 0 hK rfl
     obtain ⟨σ', h', e⟩ := h0
     refine ⟨g args, σ', fun env => Applies.env_irrel h' env, Store.Keeps.of_framesExt e.framesExt b N,
       fun _ _ => hK.ext e.framesExt⟩
 
 /-- with a pure procedure argument the traversal of `map` computes `List.mapM` and only appends
 frames -/
-theorem mapM_of_papp {f : Value} {g : Value → Except SErr Value} (h : ∀ x, PApp b f [x] (g x))
+theorem mapM_of_papp {f : Value} {g : Value → Except SErr Value} (h : ∀ V x, PApp V b f [x] (g x))
     {σ : Store} {xs : List Value} {r σ'} (htr : MapM (AppOf f) Store.DExt σ xs r σ') (hl : LibFrame σ b) :
     r = xs.mapM g ∧ σ.DExt σ' := by
   induction htr with
   | nil e => exact ⟨rfl, e⟩
   | @cons_err σ σ₁ σ₂ σ' x xs er e₁ happ e₂ =>
-    obtain ⟨σ₂', h', e'⟩ := h x σ₁ 0 (hl.ext e₁.framesExt)
+    obtain ⟨σ₂', h', e'⟩ := h σ₁.vecs x σ₁ 0 (hl.ext e₁.framesExt) rfl
     obtain ⟨hr, hσ⟩ := Applies.unique (happ 0) h'
     subst hσ
     refine ⟨?_, (e₁.trans e'.dExt).trans e₂⟩
     simp only [List.mapM_cons, ← hr, bind, Except.bind]
   | @cons σ σ₁ σ₂ σ₃ σ' x xs v r e₁ happ _ e₂ ih =>
-    obtain ⟨σ₂', h', e'⟩ := h x σ₁ 0 (hl.ext e₁.framesExt)
+    obtain ⟨σ₂', h', e'⟩ := h σ₁.vecs x σ₁ 0 (hl.ext e₁.framesExt) rfl
     obtain ⟨hr, hσ⟩ := Applies.unique (happ 0) h'
     subst hσ
     obtain ⟨rfl, e₃⟩ := ih ((hl.ext e₁.framesExt).ext e'.framesExt)
@@ -2409,8 +2625,37 @@ theorem evalStatements_lams (ρ : Nat) : ∀ (lams : List (String × Lambda)) (f
     simp only [List.map_cons, evalStatements, evalExprOrDef, evalExpr, List.foldl_cons]
     rw [evalStatements_lams ρ lams (k + 1) _ (by simp at h; omega)]
 
-theorem nativeBase_assoc : nativeBase.foldl (fun a p => assocInsert a p.1 p.2) [] = nativeBase := by
-  rfl
+theorem assocInsert_fresh {α} : ∀ (d : List (String × α)) (k : String) (v : α), k ∉ d.map (·.1) →
+    assocInsert d k v = d ++ [(k, v)]
+  | [], k, v, _ => rfl
+  | (k', v') :: d, k, v, h => by
+    simp only [List.map_cons, List.mem_cons, not_or] at h
+    simp only [assocInsert, Ne.symm h.1, if_false, List.cons_append]
+    rw [assocInsert_fresh d k v h.2]
+
+theorem lookup_none_of_not_mem {α} : ∀ (d : List (String × α)) (k : String), k ∉ d.map (·.1) → d.lookup k = none
+  | [], _, _ => rfl
+  | (k', v') :: d, k, h => by
+    simp only [List.map_cons, List.mem_cons, not_or] at h
+    have : (k == k') = false := by simpa using h.1
+    rw [List.lookup, this]
+    exact lookup_none_of_not_mem d k h.2
+
+/-- merging import bindings with fresh, distinct names: no conflict test is reached -/
+theorem foldlM_merge_fresh {α} {F : List (String × α) → String × α → Except SErr (List (String × α))}
+    (hF : ∀ a p, a.lookup p.1 = none → F a p = .ok (assocInsert a p.1 p.2)) :
+    ∀ (l acc : List (String × α)), ((acc ++ l).map (·.1)).Nodup → l.foldlM F acc = .ok (acc ++ l)
+  | [], acc, _ => by simp [pure, Except.pure]
+  | p :: l, acc, h => by
+    have hp : p.1 ∉ acc.map (·.1) := by
+      simp only [List.map_append, List.map_cons] at h
+      have := (List.nodup_append.mp h).2.2
+      intro hm
+      exact this _ hm _ (List.mem_cons_self) rfl
+    have e : acc ++ [(p.1, p.2)] ++ l = acc ++ p :: l := by simp
+    rw [List.foldlM_cons, hF acc p (lookup_none_of_not_mem acc p.1 hp), assocInsert_fresh acc p.1 p.2 hp]
+    simp only [bind, Except.bind]
+    rw [foldlM_merge_fresh hF l (acc ++ [(p.1, p.2)]) (by rw [e]; exact h), e]
 
 /-- `(import (ruschm base))` from the registered native factory: the natives are defined in `ρ` -/
 theorem evalImport_ruschmBase (st : State) (ρ : Nat) (fuel : Nat) (hfuel : 4 ≤ fuel)
@@ -2421,8 +2666,14 @@ theorem evalImport_ruschmBase (st : State) (ρ : Nat) (fuel : Nat) (hfuel : 4 
       (evalImport fuel st [.direct libRuschmBase none] ρ).2.store =
         nativeBase.foldl (fun σ p => σ.define ρ p.1 p.2) st.store := by
   obtain ⟨k, rfl⟩ : ∃ k, fuel = k + 4 := ⟨fuel - 4, by omega⟩
-  simp only [evalImport, evalImportSets, evalImportSet, h₃, getLibrary, h₁, h₂, Bool.false_eq_true, if_false,
-    nativeBase_assoc, and_self]
+  simp only [evalImport, evalImportSets, evalImportSet, h₃, getLibrary, h₁, h₂, Bool.false_eq_true, if_false]
+  -- merging the natives into the (empty) import map: the names are distinct, no conflict test is reached
+  generalize hfold : List.foldlM (m := Except SErr) (s := List (String × Value)) _ [] nativeBase = res
+  have hres : res = .ok nativeBase := by
+    rw [← hfold]
+    exact foldlM_merge_fresh (fun a p h => by simp only [h]) nativeBase [] (by decide)
+  subst hres
+  simp only [and_self]
 
 theorem foldlM_error_elim {α β} {F : β → α → Except SErr β} : ∀ {xs : List α} {acc : β} {e : SErr},
     xs.foldlM F acc = .error e → ∃ acc', ∃ x ∈ xs, ∃ e', F acc' x = .error e'
@@ -2462,7 +2713,7 @@ theorem evalLibDecls_base (st : State) (ρ : Nat) (fuel : Nat) (hfuel : 39 ≤ f
   simp only [List.nil_append]
   rw [expectedDefs_lams, List.map_map]
   have hst := evalStatements_lams ρ expectedLams (k + 36) st₁ (by
-    have : expectedLams.length = 30 := by rfl
+    have : expectedLams.length = 31 := by rfl
     omega)
   simp only [Function.comp_def] at hst ⊢
   rw [hst]
